@@ -8,7 +8,7 @@ import os
 from ..core import Ctx
 from ..match import (Fact, arg, call_name, calls, fact_of, facts_at, has_fact, local_defs, mentions, resolve, same_expr,
                      single_def)
-from ..model import NOCONST, AnalysisError, ClassInfo, FuncInfo, chain, norm, strip_cast, walk_no_nested
+from ..model import NOCONST, AnalysisError, ClassInfo, FuncInfo, chain, norm, parent, strip_cast, walk_no_nested
 
 LEVEL = "other"
 EXPLANATION = (
@@ -21,7 +21,10 @@ EXPLANATION = (
     "a subclass) keeps the authentication class frozen from the reviewed tree; (f) decode_map is dispatched only by "
     "Community.on_packet and __wrapped__ is never used; (g) Community.on_packet calls a decode_map handler only after "
     "comparing the first 22 bytes of the very datagram it hands on with the overlay's own prefix (a signature covers the "
-    "prefix, which binds a message to one overlay only if the receiver checks it). A signature / prefix check spelled as "
+    "prefix, which binds a message to one overlay only if the receiver checks it); (h) inside the authenticating wrappers "
+    "nothing that changes a verified-peer entry (peer.add_address on the entry looked up under the key named in the "
+    "datagram, writes to the registry / network, helpers that do so) is reachable before a positive verdict - an unsigned "
+    "datagram must not re-home a verified peer. A signature / prefix check spelled as "
     "an `assert` does not count (compiled away under -O). Constructs are recognised by what they compute: expressions "
     "are compared after substituting single-assignment locals and composing slices of slices, values that travel through "
     "locals are followed by reaching definitions on the CFG; which parameter of _verify_signature is the datagram / the "
@@ -29,7 +32,9 @@ EXPLANATION = (
     "through a tag (a local / a helper's result that is tested later: the facts common to all ways the tag can have got "
     "a value compatible with the test), through the normal completion of a helper that returns only after the check, "
     "or through a local closure that is itself wrapped by a directly verifying decorator; helpers are analysed with "
-    "their parameters bound to the caller's arguments. "
+    "their parameters bound to the caller's arguments; a result object (NamedTuple / dataclass / namedtuple / a class "
+    "whose __init__ only stores its parameters) is the tuple of its constructor arguments with named components, Enum "
+    "members are distinct constants, X[slice(a, b)] is X[a:b], `with contextlib.suppress(E): B` is try: B except E: pass. "
     "Decides the dataflow/dominance facts, not the cryptography."
 )
 
@@ -116,6 +121,15 @@ def _tuple_component(fi: FuncInfo, e: ast.AST, depth: int = 4) -> tuple[ast.AST 
         return _tuple_component(fi, val, depth - 1)
     if isinstance(e, ast.Subscript) and isinstance(e.slice, ast.Constant) and isinstance(e.slice.value, int):
         return resolve(fi, e.value), e.slice.value
+    if isinstance(e, ast.Attribute) and isinstance(e.value, ast.Name) and e.value.id not in fi.params() \
+            and single_def(fi, e.value.id) is not None and not _fields_written(fi, e.value.id):
+        # `r = P` ... `r.field`: the component of a record result that is called `field` (index = the field NAME; the
+        # caller maps it to a position with the producer's record layout)
+        return resolve(fi, e.value), e.attr
+    if isinstance(e, ast.Attribute) and isinstance(strip_cast(e.value), ast.Call):
+        return strip_cast(e.value), e.attr
+    if isinstance(e, ast.Call):
+        return e, None                      # the whole result of the producer
     return None, None
 
 
@@ -176,14 +190,259 @@ def _in_assert(e: ast.AST) -> bool:
     return isinstance(enclosing_stmt(e), ast.Assert)
 
 
+# ------------------------------------------------------------------------------------------ result objects (records)
+# A function may hand back its results as a small record instead of a tuple: a NamedTuple / dataclass / namedtuple(...) /
+# plain class whose __init__ only stores its parameters.  Constructing such a record binds each field to one argument
+# expression, and reading `<record>.<field>` (or `<record>[i]` / tuple unpacking for the tuple-like kinds) gives back
+# exactly that value - the same relation as between a tuple display and its components.  The rules below therefore
+# treat `Cls(a, b)` as the tuple (a, b) with named components.
+class _Record:
+    def __init__(self, names: list[str], values: list[ast.AST], tuple_like: bool, cls_name: str) -> None:
+        self.names, self.values, self.tuple_like, self.cls_name = names, values, tuple_like, cls_name
+
+
+_NOPROJ = object()
+_FORBIDDEN_RECORD_METHODS = {"__new__", "__init__", "__post_init__", "__getattr__", "__getattribute__", "__getitem__",
+                             "__iter__", "__setattr__", "__class_getitem__", "__init_subclass__"}
+
+
+def _class_record_layout(cls: ClassInfo):
+    """([(field name, default expr | None)], tuple_like) when every instance of cls is a plain record of its
+    constructor arguments, else None"""
+    cached = getattr(cls, "_c01_layout", _NOPROJ)
+    if cached is not _NOPROJ:
+        return cached
+    out = None
+    node = cls.node
+    base_names = [chain(b) or "" for b in node.bases]
+    own_methods = {n.name for n in node.body if isinstance(n, (ast.FunctionDef, ast.AsyncFunctionDef))}
+    nested_classes = [n for n in node.body if isinstance(n, ast.ClassDef)]
+    decos = [chain(d.func) if isinstance(d, ast.Call) else chain(d) for d in node.decorator_list]
+
+    def ann_fields():
+        fs = []
+        for st in node.body:
+            if isinstance(st, ast.AnnAssign) and isinstance(st.target, ast.Name):
+                if "ClassVar" in norm(st.annotation):
+                    continue
+                fs.append((st.target.id, st.value))
+            elif isinstance(st, ast.Assign):
+                return None                  # un-annotated class attribute: not a field, may shadow one
+        return fs
+
+    if not node.keywords and not nested_classes and not cls.subclasses:
+        if len(base_names) == 1 and base_names[0] in ("NamedTuple", "typing.NamedTuple") and not decos \
+                and not (own_methods & _FORBIDDEN_RECORD_METHODS):
+            fs = ann_fields()
+            if fs and not any(n in own_methods for n, _ in fs):
+                out = (fs, True)
+        elif not base_names and len(decos) == 1 and decos[0] in ("dataclass", "dataclasses.dataclass") \
+                and not (own_methods & _FORBIDDEN_RECORD_METHODS):
+            d = node.decorator_list[0]
+            kws = {k.arg: k.value for k in d.keywords} if isinstance(d, ast.Call) else {}
+            plain = all(k in ("frozen", "slots", "eq", "repr", "order", "unsafe_hash", "match_args") for k in kws) \
+                and not (isinstance(d, ast.Call) and d.args)
+            fs = ann_fields() if plain else None
+            if fs and not any(n in own_methods for n, _ in fs):
+                ok, res = True, []
+                for n, dv in fs:
+                    if isinstance(dv, ast.Call) and call_name(dv) == "field":
+                        fk = {k.arg: k.value for k in dv.keywords}
+                        if dv.args or set(fk) - {"default", "repr", "compare", "hash"}:
+                            ok = False
+                        dv = fk.get("default")
+                    res.append((n, dv))
+                if ok:
+                    out = (res, False)
+        elif (not base_names or base_names == ["object"]) and not decos and "__init__" in own_methods \
+                and not (own_methods & (_FORBIDDEN_RECORD_METHODS - {"__init__"})):
+            init = next(n for n in node.body if isinstance(n, ast.FunctionDef) and n.name == "__init__")
+            a = init.args
+            if not (a.vararg or a.kwarg or a.kwonlyargs or a.posonlyargs or init.decorator_list) and len(a.args) >= 2:
+                params = [x.arg for x in a.args]
+                defaults = [None] * (len(params) - len(a.defaults)) + list(a.defaults)
+                attr_of = {}
+                ok = True
+                for st in init.body:
+                    if isinstance(st, ast.Expr) and isinstance(st.value, ast.Constant):
+                        continue
+                    tgt = st.targets[0] if isinstance(st, ast.Assign) and len(st.targets) == 1 else \
+                        st.target if isinstance(st, ast.AnnAssign) and st.value is not None else None
+                    val = st.value if tgt is not None else None
+                    if isinstance(tgt, ast.Attribute) and isinstance(tgt.value, ast.Name) and tgt.value.id == params[0] \
+                            and isinstance(val, ast.Name) and val.id in params[1:] and val.id not in attr_of \
+                            and tgt.attr not in attr_of.values() and tgt.attr not in own_methods:
+                        attr_of[val.id] = tgt.attr
+                    else:
+                        ok = False
+                # stored by the constructor only: no other method of the class writes the fields
+                for m in node.body:
+                    if isinstance(m, (ast.FunctionDef, ast.AsyncFunctionDef)) and m is not init:
+                        for n in ast.walk(m):
+                            if isinstance(n, ast.Attribute) and isinstance(n.ctx, (ast.Store, ast.Del)):
+                                ok = False
+                if ok and len(attr_of) == len(params) - 1:
+                    out = ([(attr_of[p], dv) for p, dv in zip(params[1:], defaults[1:])], False)
+    try:
+        cls._c01_layout = out       # type: ignore[attr-defined]
+    except Exception:  # noqa: BLE001
+        pass
+    return out
+
+
+def _namedtuple_layout(e: ast.AST):
+    """layout of `namedtuple("X", "a b")` / `namedtuple("X", ["a", "b"])`"""
+    if not (isinstance(e, ast.Call) and call_name(e) == "namedtuple" and len(e.args) == 2 and not e.keywords):
+        return None
+    spec = e.args[1]
+    if isinstance(spec, ast.Constant) and isinstance(spec.value, str):
+        names = spec.value.replace(",", " ").split()
+    elif isinstance(spec, (ast.List, ast.Tuple)) and all(isinstance(x, ast.Constant) and isinstance(x.value, str) for x in spec.elts):
+        names = [x.value for x in spec.elts]
+    else:
+        return None
+    if not names or len(set(names)) != len(names) or not all(n.isidentifier() and not n.startswith("_") for n in names):
+        return None
+    return [(n, None) for n in names], True
+
+
+def _record_of(ctx: Ctx, fi: FuncInfo, e: ast.AST) -> _Record | None:
+    """the record that call expression `e` (in fi, or brought into fi's terms from a helper) constructs"""
+    e = strip_cast(e)
+    if not isinstance(e, ast.Call) or not isinstance(e.func, (ast.Name, ast.Attribute)):
+        return None
+    if any(isinstance(x, ast.Starred) for x in e.args) or any(k.arg is None for k in e.keywords):
+        return None
+    layout, cname = None, None
+    if isinstance(e.func, ast.Name):
+        if e.func.id in _local_names(fi):
+            return None
+        r = ctx.repo.resolve_name(fi.module, e.func.id)
+        if r is None:
+            cands = ctx.repo.classes.get(e.func.id, [])
+            r = cands[0] if len(cands) == 1 else None        # a helper's global, unique in the repository
+        if isinstance(r, ClassInfo):
+            layout, cname = _class_record_layout(r), r.name
+        elif isinstance(r, tuple) and r[0] == "const":
+            layout, cname = _namedtuple_layout(strip_cast(r[2])), e.func.id
+    else:
+        r = ctx.repo.resolve_class_expr(fi.module, e.func)
+        if r is not None:
+            layout, cname = _class_record_layout(r), r.name
+    if layout is None:
+        return None
+    fields, tuple_like = layout
+    names = [n for n, _ in fields]
+    if len(e.args) > len(names):
+        return None
+    vals: dict[str, ast.AST] = dict(zip(names, e.args))
+    for k in e.keywords:
+        if k.arg not in names or k.arg in vals:
+            return None
+        vals[k.arg] = k.value
+    for n, dv in fields:
+        if n not in vals:
+            if dv is None:
+                return None
+            vals[n] = dv
+    return _Record(names, [vals[n] for n in names], tuple_like, cname or "?")
+
+
+def _components(ctx: Ctx, fi: FuncInfo, v: ast.AST | None):
+    """(component expressions, field names | None, tuple_like) of a tuple display / record construction, else None"""
+    v = strip_cast(v) if v is not None else None
+    if isinstance(v, (ast.Tuple, ast.List)):
+        return None if any(isinstance(x, ast.Starred) for x in v.elts) else (list(v.elts), None, True)
+    rec = _record_of(ctx, fi, v) if isinstance(v, ast.Call) else None
+    if rec is not None:
+        return rec.values, rec.names, rec.tuple_like
+    return None
+
+
+def _project(ctx: Ctx, fi: FuncInfo, v: ast.AST, sel):
+    """component `sel` (field name / constant index) of the value of display / record construction v, else _NOPROJ"""
+    comps = _components(ctx, fi, v)
+    if comps is None:
+        return _NOPROJ
+    vals, names, tuple_like = comps
+    if isinstance(sel, str):
+        return vals[names.index(sel)] if names is not None and sel in names else _NOPROJ
+    if isinstance(sel, int) and not isinstance(sel, bool) and tuple_like and -len(vals) <= sel < len(vals):
+        return vals[sel]
+    return _NOPROJ
+
+
+def _selector(e: ast.AST):
+    """(base expression, field name | constant index) for `base.field` / `base[3]`, else None"""
+    if isinstance(e, ast.Attribute) and isinstance(e.ctx, ast.Load):
+        return e.value, e.attr
+    if isinstance(e, ast.Subscript) and isinstance(e.ctx, ast.Load) and isinstance(e.slice, ast.Constant) \
+            and isinstance(e.slice.value, int) and not isinstance(e.slice.value, bool):
+        return e.value, e.slice.value
+    return None
+
+
+def _fields_written(fi: FuncInfo, name: str) -> bool:
+    """is an attribute / item of local `name` stored or deleted anywhere in fi (a mutable record could change)?"""
+    for n in walk_no_nested(fi.node):
+        if isinstance(n, (ast.Attribute, ast.Subscript)) and isinstance(n.ctx, (ast.Store, ast.Del)) \
+                and isinstance(n.value, ast.Name) and n.value.id == name:
+            return True
+    return False
+
+
+def _index_in(names, idx):
+    """position of component `idx` (an index, or a field name looked up in names) or None"""
+    if isinstance(idx, str):
+        return names.index(idx) if names and idx in names else None
+    return idx
+
+
 # ------------------------------------------------------------------------------------------ facts through decisions
 # A guard need not dominate the guarded site as a branch of its own.  After a decision / action split the test sits where
 # a tag is computed (`msg_id = data[22] if <test> else None`, `if <test>: tag = ... else: tag = None`, or a helper that
 # returns the tag / a verdict) and the site is only dominated by a test of the tag (`if msg_id is None: return`).  What
 # holds at the site is then: for every way the tag can have obtained a value that passes the test of the tag, the facts
 # under which it obtained that value.  The functions below compute exactly that (facts common to all surviving cases).
+_ENUM_BASES = {"Enum", "IntEnum", "StrEnum", "Flag", "IntFlag", "enum.Enum", "enum.IntEnum", "enum.StrEnum", "enum.Flag",
+               "enum.IntFlag"}
+
+
+def _enum_member(ctx: Ctx, fi: FuncInfo, e) -> tuple | None:
+    """(class identity, member name) when e is `Cls.MEMBER` of an Enum class of this repository whose members all have
+    distinct literal values (no aliases): two such expressions denote the same object iff the names are equal"""
+    if not (isinstance(e, ast.Attribute) and isinstance(e.value, ast.Name)) or e.value.id in _local_names(fi):
+        return None
+    r = ctx.repo.resolve_name(fi.module, e.value.id)
+    if r is None:
+        cands = ctx.repo.classes.get(e.value.id, [])
+        r = cands[0] if len(cands) == 1 else None
+    if not isinstance(r, ClassInfo) or len(r.node.bases) != 1 or (chain(r.node.bases[0]) or "") not in _ENUM_BASES:
+        return None
+    members = {}
+    for st in r.node.body:
+        if isinstance(st, ast.Assign) and len(st.targets) == 1 and isinstance(st.targets[0], ast.Name):
+            members[st.targets[0].id] = st.value
+        elif isinstance(st, (ast.Assign, ast.AnnAssign, ast.AugAssign)):
+            return None
+    if e.attr not in members:
+        return None
+    vals = []
+    for v in members.values():
+        if isinstance(v, ast.Call) and call_name(v) == "auto" and not v.args and not v.keywords:
+            vals.append(("auto", len(vals)))
+        elif isinstance(v, ast.Constant):
+            vals.append(("const", type(v.value).__name__, v.value))
+        else:
+            return None
+    if len(set(vals)) != len(vals) or (any(v[0] == "auto" for v in vals) and any(v[0] != "auto" for v in vals)):
+        return None
+    return id(r.node), e.attr
+
+
 def _static_value(ctx: Ctx, fi: FuncInfo, e):
-    """('const', python value) / ('display', number of items) for literals, displays and module constants, else None"""
+    """('const', python value) / ('display', number of items) / ('enum', member identity) for literals, displays, module
+    constants and Enum members, else None"""
     e = strip_cast(e)
     if isinstance(e, ast.Constant):
         return "const", e.value
@@ -195,6 +454,36 @@ def _static_value(ctx: Ctx, fi: FuncInfo, e):
         v = ctx.repo.resolve_const(fi.module, e, fi.cls)
         if v is not NOCONST:
             return "const", v
+    if isinstance(e, ast.Attribute):
+        m = _enum_member(ctx, fi, e)
+        if m is not None:
+            return "enum", m
+    return None
+
+
+def _static_equal(a, b, identity: bool):
+    """True / False when the two static values are known to be (un)equal - identical for `is` -, None when unknown"""
+    (ka, va), (kb, vb) = a, b
+    if ka == "enum" and kb == "enum":
+        return va == vb
+    if "enum" in (ka, kb):
+        other = vb if ka == "enum" else va
+        okind = kb if ka == "enum" else ka
+        if okind == "display" or (okind == "const" and (other is None or isinstance(other, bool))):
+            return False                      # an Enum member is not None / True / False / a display
+        return False if identity and okind == "const" and not isinstance(other, (int, str)) else None
+    if "display" in (ka, kb) and "const" in (ka, kb):
+        c = vb if kb == "const" else va
+        return False if (c is None or isinstance(c, (bool, int, float, str, bytes))) else None
+    if ka == "const" and kb == "const":
+        if identity:
+            if vb is None or vb is True or vb is False or va is None or va is True or va is False:
+                return va is vb
+            return None
+        try:
+            return bool(va == vb)
+        except Exception:  # noqa: BLE001
+            return None
     return None
 
 
@@ -207,23 +496,28 @@ def _contradicts(ctx: Ctx, fi: FuncInfo, f: Fact, on_left: bool, value) -> bool:
         return False
     kind, v = sv
     if f.op == "truthy":
+        if kind == "enum":
+            return False
         truth = bool(v) if kind == "const" else v > 0
         return truth != f.pos
     other = f.right if on_left else f.left
+    if f.op == "in" and on_left and isinstance(strip_cast(other), (ast.Tuple, ast.List, ast.Set)):
+        # membership in a display of static values
+        known = []
+        for x in strip_cast(other).elts:
+            xs = None if isinstance(x, ast.Starred) else _static_value(ctx, fi, x)
+            known.append(None if xs is None else _static_equal(sv, xs, False))
+        if any(k is True for k in known):
+            return not f.pos
+        if all(k is False for k in known):
+            return f.pos
+        return False
     ov = _static_value(ctx, fi, other) if other is not None else None
-    if ov is None or ov[0] != "const":
+    if ov is None:
         return False
-    o = ov[1]
-    if f.op == "is":
-        if o is None or o is True or o is False:
-            same = (kind == "const" and v is o)
-            return same != f.pos
-        return False
-    if f.op == "eq" and kind == "const":
-        try:
-            return (v == o) != f.pos
-        except Exception:  # noqa: BLE001
-            return False
+    if f.op in ("is", "eq"):
+        same = _static_equal(sv, ov, f.op == "is")
+        return False if same is None else same != f.pos
     return False
 
 
@@ -401,10 +695,12 @@ def _value_cases(ctx: Ctx, fi: FuncInfo, cfg, node, e: ast.AST, depth: int = 3) 
                 continue
             for v, fs, o in _value_cases(ctx, fi, cfg, dn, val, depth - 1):
                 if idx is not None:
-                    if isinstance(v, (ast.Tuple, ast.List)) and idx < len(v.elts) and not any(isinstance(x, ast.Starred) for x in v.elts):
-                        v = v.elts[idx]
-                    else:
-                        v = None
+                    # a target of tuple unpacking: that component of a display / tuple-like record
+                    comp = _project(ctx, fi, v, idx) if v is not None else _NOPROJ
+                    if comp is _NOPROJ and isinstance(v, ast.Call) and idx >= 0:
+                        # unpacking the result of a call: the target holds <call>[idx]
+                        comp = ast.copy_location(ast.Subscript(value=v, slice=ast.Constant(value=idx), ctx=ast.Load()), v)
+                    v = None if comp is _NOPROJ else comp
                 keep = [(a, p) for a, p in here + fs if _stable_after(ctx, fi, cfg, a, dn, e.id)]
                 out.append((v, keep, o if o is not None else dn))
         return out
@@ -412,6 +708,26 @@ def _value_cases(ctx: Ctx, fi: FuncInfo, cfg, node, e: ast.AST, depth: int = 3) 
         cases = _return_cases(ctx, fi, e, depth)
         if cases is not None:
             return cases
+    sel = _selector(e)
+    if sel is not None:
+        # `<base>.field` / `<base>[i]`: that component of every record / display the base can be
+        base = strip_cast(sel[0])
+        followable = isinstance(base, ast.Call) or (
+            isinstance(base, ast.Name) and base.id not in fi.params() and local_defs(fi, base.id)
+            and not _fields_written(fi, base.id))
+        if followable:
+            out = []
+            for v, fs, o in _value_cases(ctx, fi, cfg, node, base, depth - 1):
+                if v is None:
+                    out.append((None, fs, o))
+                    continue
+                if isinstance(v, ast.Constant) and v.value is None:
+                    continue                      # selecting from None raises: no value is obtained this way
+                comp = _project(ctx, fi, v, sel[1])
+                if comp is _NOPROJ:
+                    return [(e, [], None)]
+                out.append((comp, fs, o))
+            return out
     return [(e, [], None)]
 
 
@@ -483,7 +799,11 @@ def _site_facts(ctx: Ctx, fi: FuncInfo, cfg, site: ast.AST, rounds: int = 2) -> 
                         continue
                     operand = strip_cast(operand)
                     derived_here = getattr(f, "derived", False)
-                    if isinstance(operand, ast.Name) and operand.id not in fi.params() and local_defs(fi, operand.id):
+                    tagname = operand.id if isinstance(operand, ast.Name) else None
+                    osel = _selector(operand)
+                    if osel is not None and isinstance(strip_cast(osel[0]), ast.Name):
+                        tagname = strip_cast(osel[0]).id          # a field of a local record: the record is the tag
+                    if tagname is not None and tagname not in fi.params() and local_defs(fi, tagname):
                         if derived_here:
                             continue
                         cnodes = cfg.nodes_for(f.atom)
@@ -491,7 +811,7 @@ def _site_facts(ctx: Ctx, fi: FuncInfo, cfg, site: ast.AST, rounds: int = 2) -> 
                             continue
                         cnode = cnodes[0]
                         # the tag must not be re-assigned between its test and the site
-                        dnodes = [n for st, _, _ in local_defs(fi, operand.id) for n in cfg.nodes_for(st)]
+                        dnodes = [n for st, _, _ in local_defs(fi, tagname) for n in cfg.nodes_for(st)]
                         after_test = cfg.reach([v for v, lab in cnode.succ])
                         if any(d in after_test and any(s in cfg.reach([d], cut_nodes=[cnode]) for s in nodes) for d in dnodes):
                             continue
@@ -515,7 +835,7 @@ def _site_facts(ctx: Ctx, fi: FuncInfo, cfg, site: ast.AST, rounds: int = 2) -> 
                         grown = []
                         for v, fs, o in alive:
                             if v is not None and isinstance(v, (ast.BoolOp, ast.Compare, ast.UnaryOp)):
-                                tag = operand.id if isinstance(operand, ast.Name) else None
+                                tag = tagname
                                 fs = fs + [(g.atom, _atom_pol(g)) for g in _atoms_with_polarity(v, f.pos)
                                            if _stable_after(ctx, fi, cfg, g.atom, o if o is not None else cnode, tag)]
                             grown.append((v, fs, o))
@@ -628,9 +948,127 @@ def _sum_terms(e) -> tuple[int, list[str]]:
     return 0, [norm(e)]
 
 
+_MODULE_BINDS: dict = {}
+
+
+def _module_binds(fi: FuncInfo, name: str) -> bool:
+    """is `name` bound at module level / as a local of fi (i.e. it may not be the builtin of that name)?"""
+    if name in _local_names(fi):
+        return True
+    m = fi.module
+    if name in m.classes or name in m.functions or name in m.constants or name in m.imports:
+        return True
+    key = (id(m.tree), name)
+    if key not in _MODULE_BINDS:
+        _MODULE_BINDS[key] = (m.tree, any(
+            (isinstance(n, ast.Name) and n.id == name and isinstance(n.ctx, (ast.Store, ast.Del)))
+            or (isinstance(n, (ast.Global, ast.Nonlocal)) and name in n.names)
+            or (isinstance(n, ast.arg) and n.arg == name)
+            or (isinstance(n, (ast.FunctionDef, ast.AsyncFunctionDef, ast.ClassDef)) and n.name == name)
+            for n in ast.walk(m.tree)))       # the tree is kept alive with the entry: its id cannot be reused
+        if len(_MODULE_BINDS) > 512:
+            keep = _MODULE_BINDS[key]
+            _MODULE_BINDS.clear()
+            _MODULE_BINDS[key] = keep
+    return _MODULE_BINDS[key][1]
+
+
+def _map_bottom_up(e, fn):
+    """copy of e (shared where unchanged) with fn applied to every rebuilt node, children first"""
+    if not isinstance(e, ast.AST) or isinstance(e, _OWN_SCOPE) or not e._fields:
+        return e
+    changed = False
+    vals = {}
+    for f in e._fields:
+        v = getattr(e, f, None)
+        if isinstance(v, list):
+            nv = [_map_bottom_up(x, fn) if isinstance(x, ast.AST) else x for x in v]
+            changed = changed or any(a is not b for a, b in zip(nv, v))
+        elif isinstance(v, ast.AST):
+            nv = _map_bottom_up(v, fn)
+            changed = changed or nv is not v
+        else:
+            nv = v
+        vals[f] = nv
+    if changed:
+        new = type(e)()
+        for f, v in vals.items():
+            setattr(new, f, v)
+        e = ast.copy_location(new, e)
+    return fn(e)
+
+
+def _slice_objects_to_syntax(fi: FuncInfo, e):
+    """
+    X[slice(a, b)] -> X[a:b], X[slice(b)] -> X[:b], X[slice(a, b, c)] -> X[a:b:c] (a `None` argument is an omitted bound):
+    that is what subscription with a slice object means.  X.__getitem__(i) -> X[i] likewise.  Only the builtin `slice`.
+    """
+    if _module_binds(fi, "slice"):
+        return e
+
+    def none_to_missing(x):
+        return None if isinstance(x, ast.Constant) and x.value is None else x
+
+    def fn(n):
+        if isinstance(n, ast.Call) and isinstance(n.func, ast.Attribute) and n.func.attr == "__getitem__" \
+                and len(n.args) == 1 and not n.keywords and not isinstance(n.args[0], ast.Starred):
+            n = fn(ast.copy_location(ast.Subscript(value=n.func.value, slice=n.args[0], ctx=ast.Load()), n))
+        if isinstance(n, ast.Subscript) and isinstance(n.slice, ast.Call) and isinstance(n.slice.func, ast.Name) \
+                and n.slice.func.id == "slice" and not n.slice.keywords and 1 <= len(n.slice.args) <= 3 \
+                and not any(isinstance(a, ast.Starred) for a in n.slice.args):
+            a = list(n.slice.args)
+            lo, up, st = (None, a[0], None) if len(a) == 1 else (a[0], a[1], a[2] if len(a) == 3 else None)
+            sl = ast.Slice(lower=none_to_missing(lo), upper=none_to_missing(up), step=none_to_missing(st))
+            return ast.copy_location(ast.Subscript(value=n.value, slice=sl, ctx=n.ctx), n)
+        return n
+
+    return _map_bottom_up(e, fn)
+
+
+def _desugar_functional(fi: FuncInfo, e):
+    """
+    Applications of the functools / operator function builders, written out (after expansion of single-assignment
+    locals the builder call sits directly in callee position):
+      partial(F, *A, **K)(*B, **L) -> F(*A, *B, **K, **L)      itemgetter(i)(x)  -> x[i]
+      methodcaller("m", *A, **K)(x) -> x.m(*A, **K)            attrgetter("a.b")(x) -> x.a.b
+    Each is the documented meaning of the builder; nothing else is rewritten.
+    """
+    def fn(n):
+        if not (isinstance(n, ast.Call) and isinstance(n.func, ast.Call)):
+            return n
+        b = n.func
+        if any(k.arg is None for k in list(b.keywords) + list(n.keywords)):
+            return n
+        if _imported_as(fi, b.func, "functools", ("partial",)) and b.args and not isinstance(b.args[0], ast.Starred):
+            # positional arguments are concatenated in order, `*seq` items included
+            if {k.arg for k in b.keywords} & {k.arg for k in n.keywords}:
+                return n
+            return ast.copy_location(ast.Call(func=b.args[0], args=list(b.args[1:]) + list(n.args),
+                                              keywords=list(b.keywords) + list(n.keywords)), n)
+        if any(isinstance(a, ast.Starred) for a in list(b.args) + list(n.args)):
+            return n
+        one = len(n.args) == 1 and not n.keywords
+        if one and _imported_as(fi, b.func, "operator", ("itemgetter",)) and len(b.args) == 1 and not b.keywords:
+            return ast.copy_location(ast.Subscript(value=n.args[0], slice=b.args[0], ctx=ast.Load()), n)
+        if one and _imported_as(fi, b.func, "operator", ("attrgetter",)) and len(b.args) == 1 and not b.keywords \
+                and isinstance(b.args[0], ast.Constant) and isinstance(b.args[0].value, str) \
+                and all(x.isidentifier() for x in b.args[0].value.split(".")):
+            out = n.args[0]
+            for name in b.args[0].value.split("."):
+                out = ast.copy_location(ast.Attribute(value=out, attr=name, ctx=ast.Load()), n)
+            return out
+        if one and _imported_as(fi, b.func, "operator", ("methodcaller",)) and b.args \
+                and isinstance(b.args[0], ast.Constant) and isinstance(b.args[0].value, str) and b.args[0].value.isidentifier():
+            callee = ast.copy_location(ast.Attribute(value=n.args[0], attr=b.args[0].value, ctx=ast.Load()), n)
+            return ast.copy_location(ast.Call(func=callee, args=list(b.args[1:]), keywords=list(b.keywords)), n)
+        return n
+
+    return _map_bottom_up(e, fn)
+
+
 def _xs(fi: FuncInfo, e: ast.AST | None):
     """fully expanded (single-assignment locals substituted) and slice-composed copy of e"""
-    return None if e is None else _simplify_slices(_expand(fi, e))
+    return None if e is None else _simplify_slices(_slice_objects_to_syntax(fi, _desugar_functional(fi, _expand(fi, e))))
 
 
 # ------------------------------------------------------------------------------------------ calls: argument binding
@@ -665,9 +1103,15 @@ class _VSContract:
     signature is valid, the verdict is its normal completion).
     """
 
-    def __init__(self, fi, data_param, key_param, key_kind, verdict_idx, remainder_idx, derived) -> None:
+    def __init__(self, fi, data_param, key_param, key_kind, verdict_idx, remainder_idx, derived, fields=None) -> None:
         self.fi, self.data_param, self.key_param, self.key_kind = fi, data_param, key_param, key_kind
         self.verdict_idx, self.remainder_idx, self.derived = verdict_idx, remainder_idx, derived
+        self.fields = fields          # names of the components when the result is a record (NamedTuple, dataclass, ...)
+        self.verdict_enc = None       # (constants that mean valid, constants that mean invalid) when the verdict is re-coded
+
+    def position(self, idx):
+        """position in the result of the component a caller reads as `[idx]` / `.idx`"""
+        return _index_in(self.fields, idx)
 
     def roles(self):
         pos = self.fi.params()
@@ -686,15 +1130,61 @@ def _kw_or_pos(call: ast.Call, index: int, name: str):
 def _vs_shape(ctx: Ctx, fi: FuncInfo, r: ast.Return) -> dict:
     """One return of a `_verify_signature` definition: where the verdict / remainder are and whether they are the right ones."""
     v = _xs(fi, r.value) if r.value is not None else None
+    fields = None
+    rec = _record_of(ctx, fi, v) if isinstance(v, ast.Call) else None
+    if rec is not None:
+        # a result object: the same pair, its components also have names
+        v = ast.copy_location(ast.Tuple(elts=list(rec.values), ctx=ast.Load()), v)
+        fields = tuple(rec.names)
     out = {"value": v, "verdict_idx": None, "remainder_idx": None, "vcall": None, "remainder": None,
-           "data_param": None, "key_param": None, "key_kind": None}
+           "data_param": None, "key_param": None, "key_kind": None, "fields": fields, "verdict_enc": None}
 
     def is_vcall(e) -> bool:
         return isinstance(e, ast.Call) and call_name(e) == "is_valid_signature"
 
+    def encoded(comp):
+        """
+        (the is_valid_signature call, static values handed back when it was true, ... when it was false) when the
+        component re-codes the outcome of ONE is_valid_signature call as constants (`GOOD if ok(...) else BAD`, a local
+        set to Enum members / booleans on the two branches of `if ok(...)`): every way the component can get its value
+        is a static constant obtained under a known outcome of that call, and no constant stands for both outcomes
+        """
+        cfg = ctx.cfg(fi)
+        nodes = [n for n in cfg.nodes_for(r) if cfg.reachable(n)]
+        if len(nodes) != 1:
+            return None
+        try:
+            cases = _value_cases(ctx, fi, cfg, nodes[0], comp)
+        except (RecursionError, AnalysisError):
+            return None
+        vc, pos, neg = None, [], []
+        for val, fs, _o in cases:
+            sv = _static_value(ctx, fi, val) if val is not None else None
+            if sv is None or sv[0] == "display":
+                return None
+            pol = None
+            for a, p in fs:
+                x = _xs(fi, a)
+                if is_vcall(x) and not _in_assert(a):
+                    if vc is not None and norm(vc) != norm(x):
+                        return None
+                    vc, pol = x, p
+            if pol is None:
+                return None
+            (pos if pol else neg).append(sv)
+        if vc is None or not pos or not neg or any(_static_equal(a, b, False) is not False for a in pos for b in neg):
+            return None
+        return vc, tuple(pos), tuple(neg)
+
     if isinstance(v, ast.Tuple) and len(v.elts) == 2 and sum(1 for e in v.elts if is_vcall(e)) == 1:
         vi = 0 if is_vcall(v.elts[0]) else 1
         out.update(verdict_idx=vi, remainder_idx=1 - vi, vcall=v.elts[vi], remainder=v.elts[1 - vi])
+    elif isinstance(v, ast.Tuple) and len(v.elts) == 2 and not any(is_vcall(e) for e in v.elts):
+        encs = [(i, encoded(e)) for i, e in enumerate(v.elts)]
+        encs = [(i, e) for i, e in encs if e is not None]
+        if len(encs) == 1:
+            vi, (vc_, pos_, neg_) = encs[0]
+            out.update(verdict_idx=vi, remainder_idx=1 - vi, vcall=vc_, remainder=v.elts[1 - vi], verdict_enc=(pos_, neg_))
     elif v is not None and not isinstance(v, ast.Tuple) and not is_vcall(v):
         # `if not is_valid_signature(...): raise ...` ... `return remainder`: the verdict is the normal completion
         for f in facts_at(ctx.cfg(fi), r):
@@ -732,12 +1222,14 @@ def _vs_contract(ctx: Ctx) -> _VSContract:
         raise AnalysisError("anchor-lost: EZPackOverlay._verify_signature takes the datagram and the key container")
     rets = [n for n in walk_no_nested(fi.node) if isinstance(n, ast.Return)]
     shapes = [_vs_shape(ctx, fi, r) for r in rets]
-    keys = {(s["data_param"], s["key_param"], s["key_kind"], s["verdict_idx"], s["remainder_idx"]) for s in shapes}
+    keys = {(s["data_param"], s["key_param"], s["key_kind"], s["verdict_idx"], s["remainder_idx"], s["fields"],
+             s["verdict_enc"]) for s in shapes}
     vs = None
     if len(keys) == 1:
-        dp, kp, kk, vi, ri = next(iter(keys))
+        dp, kp, kk, vi, ri, fields, enc = next(iter(keys))
         if dp is not None and kp is not None and vi is not None and dp != kp:
-            vs = _VSContract(fi, dp, kp, kk, vi, ri, True)
+            vs = _VSContract(fi, dp, kp, kk, vi, ri, True, fields)
+            vs.verdict_enc = enc
     if vs is None:
         # not recognisable (reported by whole-prefix): callers are judged against the reviewed layout
         # _verify_signature(self, auth, data) -> (verdict, remainder)
@@ -762,21 +1254,87 @@ def _verify_call_link(ctx: Ctx, fi: FuncInfo, name_expr: ast.AST, rule: str, sit
 def _check_auth_unpack(ctx: Ctx, fi: FuncInfo, auth_expr: ast.AST, data_name: str, site: ast.AST, rule: str) -> bool:
     """auth must come from unpack_serializable(BinMemberAuthenticationPayload, <data param>, offset=23)[0]."""
     val, idx = _tuple_component(fi, auth_expr)
-    if not (isinstance(val, ast.Call) and chain(val.func) == "self.serializer.unpack_serializable" and idx == 0):
+    return _is_auth_unpack(ctx, fi, val, idx, data_name, 2)
+
+
+def _is_auth_unpack(ctx: Ctx, fi: FuncInfo, val, idx, data_name: str, depth: int) -> bool:
+    """is component idx of the value of call `val` the authentication header decoded from the datagram parameter at
+    offset 23?  (directly, spelled through functools.partial, or by a helper all of whose returns are such a decode)"""
+    if not isinstance(val, ast.Call):
         return False
-    a0, a1, off = arg(val, 0, "serializable"), arg(val, 1, "data"), arg(val, 2, "offset")
-    a0, a1, off = (None if a is None else resolve(fi, a) for a in (a0, a1, off))
-    ok = (a0 is not None and chain(a0) == "BinMemberAuthenticationPayload"
-          and isinstance(a1, ast.Name) and a1.id == data_name
-          and off is not None and ctx.repo.resolve_const(fi.module, off, fi.cls) == 23)
-    if ok:
-        r = ctx.repo.resolve_name(fi.module, "BinMemberAuthenticationPayload")
-        ok = isinstance(r, ClassInfo) and r.module.relpath == "ipv8/messaging/payload_headers.py"
-    return ok
+    call = _desugar_functional(fi, _expand(fi, val))
+    if isinstance(call, ast.Call) and chain(call.func) == "self.serializer.unpack_serializable":
+        if idx != 0:
+            return False
+        a0, a1, off = arg(call, 0, "serializable"), arg(call, 1, "data"), arg(call, 2, "offset")
+        ok = (a0 is not None and chain(a0) == "BinMemberAuthenticationPayload"
+              and isinstance(a1, ast.Name) and a1.id == data_name and _is_param_unmodified(fi, data_name)
+              and off is not None and ctx.repo.resolve_const(fi.module, off, fi.cls) == 23)
+        if ok:
+            r = ctx.repo.resolve_name(fi.module, "BinMemberAuthenticationPayload")
+            ok = isinstance(r, ClassInfo) and r.module.relpath == "ipv8/messaging/payload_headers.py"
+        return ok
+    if depth <= 0:
+        return False
+    # a helper that decodes the header: every value it can return, in this function's terms
+    try:
+        cases = _return_cases(ctx, fi, val, 2)
+    except (RecursionError, AnalysisError):
+        cases = None
+    if not cases:
+        return False
+    for v, _fs, _o in cases:
+        if v is None:
+            return False
+        if idx is not None:
+            v = _project(ctx, fi, v, idx)
+            if v is _NOPROJ:
+                return False
+        v = strip_cast(v)
+        sel = _selector(v)
+        if sel is None or not isinstance(strip_cast(sel[0]), ast.Call) \
+                or not _is_auth_unpack(ctx, fi, strip_cast(sel[0]), sel[1], data_name, depth - 1):
+            return False
+    return True
 
 
 _ASSERT_REASON = ("the only signature check on the way to the handler is an `assert` statement: it is compiled away under "
                   "python -O / PYTHONOPTIMIZE, after which the handler runs for forged and tampered datagrams")
+
+
+def _known_true_operand(f: Fact) -> ast.AST | None:
+    """the expression that fact f says is true: `x` (truthy), `x is True`, `x == True` (either side)"""
+    if f.op == "truthy":
+        return f.left if f.pos else None
+    if f.op in ("is", "eq") and f.pos and f.right is not None:
+        for a, b in ((f.left, f.right), (f.right, f.left)):
+            if isinstance(b, ast.Constant) and b.value is True:
+                return a
+    return None
+
+
+def _known_valid_operand(ctx: Ctx, fi: FuncInfo, f: Fact, enc) -> ast.AST | None:
+    """the expression that fact f says holds one of the constants that mean `signature valid` (enc: see _vs_shape):
+    `x is/== GOOD`, `x is not BAD` when BAD is the only constant for invalid, plain truthiness when the constants for
+    valid are all true and those for invalid all false"""
+    pos, neg = enc
+    if f.op == "truthy":
+        def truth(sv):
+            return None if sv[0] != "const" else bool(sv[1])
+        if f.pos and all(truth(p) is True for p in pos) and all(truth(n) is False for n in neg):
+            return f.left
+        return None
+    if f.op in ("is", "eq") and f.right is not None:
+        for a, b in ((f.left, f.right), (f.right, f.left)):
+            sb = _static_value(ctx, fi, b)
+            if sb is None:
+                continue
+            if f.pos and any(_static_equal(sb, p, False) is True for p in pos) \
+                    and all(_static_equal(sb, n, False) is False for n in neg):
+                return a
+            if not f.pos and all(_static_equal(sb, n, f.op == "is") is True for n in neg):
+                return a
+    return None
 
 
 def _dominating_verification(ctx: Ctx, fi: FuncInfo, facts, site: ast.AST) -> tuple[ast.Call | None, bool]:
@@ -795,9 +1353,10 @@ def _dominating_verification(ctx: Ctx, fi: FuncInfo, facts, site: ast.AST) -> tu
                     vcall = c
         return vcall, False
     for f in facts:
-        if f.op == "truthy" and f.pos:
-            vc, idx = _verify_call_link(ctx, fi, f.left, "verify-before-call", site)
-            if vc is not None and idx == vs.verdict_idx:
+        known_true = _known_true_operand(f) if vs.verdict_enc is None else _known_valid_operand(ctx, fi, f, vs.verdict_enc)
+        if known_true is not None:
+            vc, idx = _verify_call_link(ctx, fi, known_true, "verify-before-call", site)
+            if vc is not None and vs.position(idx) == vs.verdict_idx:
                 if _fact_in_assert(f):
                     asserted = True
                 else:
@@ -859,22 +1418,50 @@ def _targets(ctx: Ctx, fi: FuncInfo, call: ast.Call) -> list[FuncInfo]:
         c = _self_class(ctx, fi)
         if c is not None:
             return ctx.repo.dispatch(c, f.attr)
+    if fi.cls is None and isinstance(f, ast.Attribute) and isinstance(f.value, ast.Attribute) \
+            and isinstance(f.value.value, ast.Name) and fi.params() and f.value.value.id == fi.params()[0] \
+            and not local_defs(fi, f.value.value.id):
+        # self.<attr>.<method>(...) in such a function: the attribute's class as the overlay declares / constructs it
+        c = _self_class(ctx, fi)
+        t = ctx.repo.attr_type(c, f.value.attr) if c is not None else None
+        if t is not None:
+            return ctx.repo.dispatch(t, f.attr)
+        # the attribute's class is not declared (`self.network = settings.network`): every method of that name in the
+        # repository (dispatch over-approximated; callers require their condition of ALL targets)
+        index = getattr(ctx, "_c01_methods_by_name", None)
+        if index is None:
+            index = {}
+            for g in ctx.repo.all_functions():
+                if g.cls is not None:
+                    index.setdefault(g.name, []).append(g)
+            ctx._c01_methods_by_name = index          # type: ignore[attr-defined]
+        cands = index.get(f.attr, [])
+        if 0 < len(cands) <= 3 and not f.attr.startswith("__"):
+            return list(cands)
     try:
         return ctx.repo.resolve_call(fi, call)
     except Exception:  # noqa: BLE001
         return []
 
 
-def _from_calls(fi: FuncInfo, e: ast.AST, calls_: list, idx, depth: int = 4) -> bool:
-    """does e denote component idx (None: the whole result) of one of calls_ - on EVERY definition that can reach it?"""
+def _from_calls(fi: FuncInfo, e: ast.AST, calls_: list, idx, depth: int = 4, fields=None) -> bool:
+    """does e denote component idx (None: the whole result) of one of calls_ - on EVERY definition that can reach it?
+    fields: the names of the components when the calls return a record (`r.name` is then component fields.index(name))"""
     e = strip_cast(e)
     if depth <= 0:
         return False
     if isinstance(e, ast.Call):
-        return idx is None and any(e is c for c in calls_)
+        # the call itself, or a copy of it that stands where a single-assignment local holding its result was expanded
+        # (a second evaluation of the same verifying call on the same unmodified datagram returns the same material)
+        return idx is None and any(e is c or (parent(e) is None and norm(e) in (norm(c), _xnorm(fi, c))) for c in calls_)
     if isinstance(e, ast.Subscript) and isinstance(e.slice, ast.Constant) and idx is not None and e.slice.value == idx \
             and not isinstance(e.slice.value, bool):
-        return _from_calls(fi, e.value, calls_, None, depth - 1)
+        return _from_calls(fi, e.value, calls_, None, depth - 1, fields)
+    if isinstance(e, ast.Attribute) and idx is not None and fields and e.attr in fields and fields.index(e.attr) == idx:
+        base = strip_cast(e.value)
+        if isinstance(base, ast.Call) or (isinstance(base, ast.Name) and not _fields_written(fi, base.id)):
+            return _from_calls(fi, base, calls_, None, depth - 1, fields)
+        return False
     if isinstance(e, ast.Name) and e.id not in fi.params():
         defs = local_defs(fi, e.id)
         if not defs:
@@ -883,9 +1470,9 @@ def _from_calls(fi: FuncInfo, e: ast.AST, calls_: list, idx, depth: int = 4) -> 
             if val is None:
                 return False
             if i is None:
-                if not _from_calls(fi, val, calls_, idx, depth - 1):
+                if not _from_calls(fi, val, calls_, idx, depth - 1, fields):
                     return False
-            elif not (i == idx and _from_calls(fi, val, calls_, None, depth - 1)):
+            elif not (i == idx and _from_calls(fi, val, calls_, None, depth - 1, fields)):
                 return False
         return True
     return False
@@ -897,16 +1484,18 @@ class _Verified:
     the calls - one of them has completed -, `auth_idx` / `key_idx`: where their result carries the verified auth payload
     / the verified key; auth_idx None with has_auth: the result itself is the auth payload)"""
 
-    def __init__(self, fi, vcall=None, a_auth=None, ucalls=(), auth_idx=None, has_auth=True, key_idx=None) -> None:
+    def __init__(self, fi, vcall=None, a_auth=None, ucalls=(), auth_idx=None, has_auth=True, key_idx=None, fields=None) -> None:
         self.fi, self.vcall, self.a_auth = fi, vcall, a_auth
         self.ucalls, self.auth_idx, self.has_auth, self.key_idx = list(ucalls), auth_idx, has_auth, key_idx
+        self.fields = list(fields) if fields else None      # component names when the helpers return a record
 
     def is_auth(self, e: ast.AST) -> bool:
         """does expression e (of the same function) denote the verified auth payload?"""
         fi = self.fi
         if self.vcall is not None:
-            return self.a_auth is not None and _xnorm(fi, e) == _xnorm(fi, self.a_auth)
-        return self.has_auth and _from_calls(fi, e, self.ucalls, self.auth_idx)
+            return self.a_auth is not None and norm(_desugar_functional(fi, _expand(fi, e))) == \
+                norm(_desugar_functional(fi, _expand(fi, self.a_auth)))
+        return self.has_auth and _from_calls(fi, e, self.ucalls, self.auth_idx, fields=self.fields)
 
     def is_key(self, k: ast.AST) -> bool:
         """does expression k denote <verified auth>.public_key_bin ?"""
@@ -915,14 +1504,14 @@ class _Verified:
             if isinstance(x, ast.Attribute) and x.attr == "public_key_bin" and self.is_auth(x.value):
                 return True
         return self.vcall is None and self.key_idx is not None \
-            and _from_calls(fi, k, self.ucalls, None if self.key_idx == "whole" else self.key_idx)
+            and _from_calls(fi, k, self.ucalls, None if self.key_idx == "whole" else self.key_idx, fields=self.fields)
 
 
 def _quiet(ctx: Ctx) -> Ctx:
     """a scratch context (same repository, same CFG cache): lets a rule be asked as a question"""
     sub = Ctx(ctx.prop, ctx.repo, ctx.tier)
     sub._cfgs = ctx._cfgs
-    for k in ("_c01_vs", "_c01_unpackers"):
+    for k in ("_c01_vs", "_c01_unpackers", "_c01_methods_by_name", "_c01_effects"):
         if hasattr(ctx, k):
             setattr(sub, k, getattr(ctx, k))
     return sub
@@ -1004,7 +1593,7 @@ def _unpacker_calls(ctx: Ctx, fi: FuncInfo, data_name: str, replay: bool = True,
             if not (isinstance(a, ast.Name) and a.id == data_name and _is_param_unmodified(fi, data_name)):
                 summs = None
                 break
-            summs.append((sm["auth_idx"], sm["has_auth"], sm["key_idx"]))
+            summs.append((sm["auth_idx"], sm["has_auth"], sm["key_idx"], sm.get("fields")))
         if summs and len(set(summs)) == 1:
             out.append((c, summs[0]))
     return out
@@ -1024,7 +1613,7 @@ def _dominating_unpacker(ctx: Ctx, fi: FuncInfo, cfg, site: ast.AST, data_name: 
         if any(n in through for n in nodes) and not isinstance(site, ast.Return):
             continue
         if through and all(n in through or cfg.must_complete(n, through) for n in nodes):
-            return _Verified(fi, ucalls=group, auth_idx=kind[0], has_auth=kind[1], key_idx=kind[2])
+            return _Verified(fi, ucalls=group, auth_idx=kind[0], has_auth=kind[1], key_idx=kind[2], fields=kind[3])
     return None
 
 
@@ -1085,6 +1674,11 @@ def _returned_function(ctx: Ctx, fi: FuncInfo, depth: int = 3) -> FuncInfo | Non
             g = ctx.repo.resolve_name(fi.module, v.func.id)
             if isinstance(g, FuncInfo) and g.cls is None and g.module is fi.module and g.node is not fi.node:
                 got = _returned_function(ctx, g, depth - 1)
+            elif isinstance(g, ClassInfo) and g.module is fi.module and not g.subclasses and "__call__" in g.methods \
+                    and not ({"__new__", "__getattr__", "__getattribute__", "__get__"} & set(g.methods)) \
+                    and not g.node.decorator_list and not g.methods["__call__"].node.decorator_list:
+                # an instance of a small callable class stands for its __call__ (a closure spelled as a class)
+                got = g.methods["__call__"]
         if got is None:
             return None
         found.append(got)
@@ -1098,10 +1692,11 @@ def _find_wrapper(ctx: Ctx, deco: str) -> tuple[FuncInfo, str]:
     deco(*payloads) returns the decorator (its own closure or one made by a factory), which returns the wrapper"""
     top = ctx.repo.func(LC, deco)
     d = _returned_function(ctx, top)
-    w = _returned_function(ctx, d) if d is not None and len(d.params()) == 1 else None
+    own = [] if d is None else d.params()[1:] if (d.cls is not None and d.name == "__call__") else d.params()
+    w = _returned_function(ctx, d) if d is not None and len(own) == 1 else None
     if w is None or len(w.params()) < 3 or w.node.args.vararg is not None:
         raise AnalysisError(f"anchor-lost: {deco} wrapper signature")
-    return w, d.params()[0]
+    return w, own[0]
 
 
 def _closures_calling(fi: FuncInfo, fname: str) -> list[tuple[ast.AST, ast.Call]]:
@@ -1285,9 +1880,12 @@ def _check_unpack_auth(ctx: Ctx, fi: FuncInfo, strict_first: bool = True) -> dic
             where.add("unverified")
             continue
         rv = _expand(fi, r.value)
-        comps = list(rv.elts) if isinstance(rv, ast.Tuple) else None
+        cs_rv = _components(ctx, fi, rv) if isinstance(rv, (ast.Tuple, ast.Call)) else None
+        comps = cs_rv[0] if cs_rv is not None else None
+        names = tuple(cs_rv[1]) if cs_rv is not None and cs_rv[1] else None     # a result object: named components
         raw = strip_cast(resolve(fi, r.value))
-        raw_comps = list(raw.elts) if isinstance(raw, ast.Tuple) else None
+        cs_raw = _components(ctx, fi, raw) if isinstance(raw, (ast.Tuple, ast.Call)) else None
+        raw_comps = cs_raw[0] if cs_raw is not None and len(cs_raw[0]) == len(comps or []) else None
         def find(pred):
             if comps is None:
                 return None if pred(r.value) else -1
@@ -1297,7 +1895,7 @@ def _check_unpack_auth(ctx: Ctx, fi: FuncInfo, strict_first: bool = True) -> dic
                         return i
             return -1
         idx, kidx = find(ver.is_auth), find(ver.is_key)
-        where.add((idx, kidx))
+        where.add((idx, kidx, names))
         if strict_first:
             ctx.check(idx == 0, "peer-from-auth-key", fi, r, f"{label} returns the auth payload that was verified",
                       "the returned auth payload is not the one whose key verified the signature")
@@ -1307,9 +1905,9 @@ def _check_unpack_auth(ctx: Ctx, fi: FuncInfo, strict_first: bool = True) -> dic
             raise AnalysisError(f"undecided: {fi.qualname} decodes payloads itself next to a verifying helper")
     if len(where) != 1 or "unverified" in where:
         return None
-    idx, kidx = next(iter(where))
+    idx, kidx, names = next(iter(where))
     return {"data_param": data_name, "auth_idx": None if idx in (None, -1) else idx, "has_auth": idx != -1,
-            "key_idx": None if kidx == -1 else ("whole" if kidx is None else kidx)}
+            "key_idx": None if kidx == -1 else ("whole" if kidx is None else kidx), "fields": names}
 
 
 def _is_super_delegation(fi: FuncInfo, base: FuncInfo, r: ast.Return) -> bool:
@@ -1341,6 +1939,15 @@ def rule_wrappers(ctx: Ctx) -> None:
         addr_name, data_name = params[1], params[2]
         fcalls = calls(fi, fname)
         nested = _closures_calling(fi, fname)
+        # the handler applied through functools.partial: partial(func, self, ...)(peer, ...) is func(self, ..., peer, ...)
+        effective: dict[int, ast.Call] = {}
+        for c in calls(fi):
+            if any(c is x for x in fcalls) or not isinstance(strip_cast(resolve(fi, c.func)), ast.Call):
+                continue
+            full = _desugar_functional(fi, _expand(fi, c))
+            if isinstance(full, ast.Call) and chain(full.func) == fname:
+                fcalls = [*fcalls, c]
+                effective[id(c)] = full
         ctx.anchor(fcalls or nested, f"call of wrapped func in {deco}")
         for call in fcalls:
             ver = _check_verified_site(
@@ -1353,7 +1960,7 @@ def rule_wrappers(ctx: Ctx) -> None:
                 elif calls(fi, "self.serializer.unpack_serializable_list"):
                     raise AnalysisError(f"undecided: the {deco} wrapper decodes payloads itself next to a verifying helper")
                 # --- peer-from-auth-key
-                _peer_arg(ctx, fi, call, ver, addr_name, deco)
+                _peer_arg(ctx, fi, call, ver, addr_name, deco, effective.get(id(call)))
         for inner, call in nested:
             _check_delegation(ctx, deco, fi, fname, inner, call)
     base = repo.method("EZPackOverlay", "_ez_unpack_auth", LC)
@@ -1382,14 +1989,16 @@ def _payload_source(ctx: Ctx, fi: FuncInfo, site: ast.AST, vcall: ast.Call, labe
             ok = src is not None and resolve(fi, src) is vcall
         else:
             prod, idx = _tuple_component(fi, src) if src is not None else (None, None)
-            ok = prod is vcall and idx == vs.remainder_idx
+            ok = prod is vcall and vs.position(idx) == vs.remainder_idx
         ctx.check(ok, "payload-from-signed-bytes", fi, u,
                   f"{label}: payloads are decoded from the remainder returned by _verify_signature",
                   "payloads handed to the handler are decoded from bytes other than the signed remainder")
 
 
-def _peer_arg(ctx: Ctx, fi: FuncInfo, call: ast.Call, ver: "_Verified", addr_name: str, label: str) -> None:
-    peer_arg = call.args[1] if len(call.args) >= 2 else None
+def _peer_arg(ctx: Ctx, fi: FuncInfo, call: ast.Call, ver: "_Verified", addr_name: str, label: str, effective=None) -> None:
+    """effective: the call as it is really made when `call` applies a functools.partial of the handler"""
+    args = (effective or call).args
+    peer_arg = args[1] if len(args) >= 2 else None
     ok = False
     why = "the peer handed to the handler is not derived from the verified key"
     registry = "self.network.verified_by_public_key_bin"
@@ -1409,16 +2018,140 @@ def _peer_arg(ctx: Ctx, fi: FuncInfo, call: ast.Call, ver: "_Verified", addr_nam
             cases = _return_cases(ctx, fi, e, 2)
             if cases:
                 vals = [x for v, _, _ in cases for x in ([None] if v is None else _alternatives(fi, v))]
-                return all(x is not None and good_value(_expand(fi, x), depth - 1) for x in vals)
+                return all(x is not None and good_value(_desugar_functional(fi, _expand(fi, x)), depth - 1) for x in vals)
         return False
 
     if peer_arg is not None and ver is not None and not isinstance(peer_arg, ast.Starred):
         # every value the argument can take (`a or b`, conditional expression, a local assigned on several branches)
-        good = [good_value(_expand(fi, alt)) for alt in _alternatives(fi, peer_arg)]
+        good = [good_value(_desugar_functional(fi, _expand(fi, alt))) for alt in _alternatives(fi, peer_arg)]
         ok = bool(good) and all(good)
     ctx.check(ok, "peer-from-auth-key", fi, call,
               f"{label}: peer argument is verified_by_public_key_bin.get(K) / [K] or Peer(K, addr) with K = auth.public_key_bin",
               why)
+
+
+# ------------------------------------------------------------------------------------------ effects before the verdict
+_REGISTRY = "verified_by_public_key_bin"
+_DICT_READS = {"get", "keys", "values", "items", "copy", "__contains__", "__getitem__", "__len__", "__iter__"}
+
+
+def _is_reader_name(name: str) -> bool:
+    return name.startswith(("get_", "is_", "has_")) or name in ("__str__", "__repr__", "__hash__", "__eq__")
+
+
+def _registry_effects(ctx: Ctx, fi: FuncInfo, depth: int = 2, _stack: tuple = ()) -> list[tuple[ast.AST, str]]:
+    """
+    (site, what) for every place in fi that changes what the node believes about a verified peer: a (non-reader) method
+    call on / an attribute store into an entry looked up in network.verified_by_public_key_bin, a change of that
+    registry itself or a (non-reader) call on the network that owns it, and calls of helpers of this repository that
+    do one of these (followed `depth` levels; the site is then the call of the helper).
+    """
+    cache = getattr(ctx, "_c01_effects", None)
+    if cache is None:
+        cache = ctx._c01_effects = {}            # type: ignore[attr-defined]
+    key = (id(fi.node), depth)
+    if key in cache:
+        return cache[key][1]
+    if id(fi.node) in _stack:
+        return []
+
+    def is_lookup(x) -> bool:
+        x = strip_cast(x)
+        if isinstance(x, ast.Call):
+            c = chain(x.func) or ""
+            return c.endswith(_REGISTRY + ".get") or c.endswith("get_" + _REGISTRY) or c.endswith(_REGISTRY + ".__getitem__") \
+                or c.endswith(_REGISTRY + ".setdefault") or c.endswith(_REGISTRY + ".pop")
+        if isinstance(x, ast.Subscript):
+            return (chain(x.value) or "").endswith(_REGISTRY)
+        return False
+
+    def is_entry(e, d: int = 3) -> bool:
+        """can e be an entry of the registry (any of its possible values is a lookup, or `lookup or fresh`)?"""
+        for alt in _alternatives(fi, e):
+            if is_lookup(alt):
+                return True
+            x = _desugar_functional(fi, _expand(fi, alt))
+            if x is not alt and d > 0 and any(is_lookup(y) for y in _alternatives(fi, x)):
+                return True
+        return False
+
+    out: list[tuple[ast.AST, str]] = []
+    own_params = set(fi.params())
+    for n in walk_no_nested(fi.node):
+        if isinstance(n, ast.Call):
+            f = n.func
+            c = chain(_expand(fi, f)) or ""
+            if isinstance(f, ast.Attribute):
+                last = f.attr
+                if is_entry(f.value) and not _is_reader_name(last):
+                    out.append((n, f"`{norm(n)}` changes the verified-peer entry stored under the key named in the datagram"))
+                    continue
+                if c.endswith(f"{_REGISTRY}.{last}") and last not in _DICT_READS:
+                    out.append((n, f"`{norm(n)}` changes the verified-peer registry"))
+                    continue
+                if ".network." in "." + c and c.endswith(f"network.{last}") and not _is_reader_name(last) \
+                        and last not in ("snapshot",):
+                    out.append((n, f"`{norm(n)}` changes the network's view of its peers"))
+                    continue
+            # helpers of this repository that have such an effect
+            follow = depth > 0 and (
+                (isinstance(f, ast.Name) and f.id not in own_params and not local_defs(fi, f.id))
+                or (isinstance(f, ast.Attribute) and isinstance(f.value, ast.Name) and fi.params() and f.value.id == fi.params()[0]
+                    and not _is_vs_call(n)))
+            if follow:
+                for h in _targets(ctx, fi, n):
+                    if not isinstance(h, FuncInfo) or h.node is fi.node or isinstance(h.node, ast.Lambda) or h.name == "__init__":
+                        continue
+                    inner = _registry_effects(ctx, h, depth - 1, _stack + (id(fi.node),))
+                    if inner:
+                        out.append((n, f"`{norm(n.func)}(...)` runs {h.qualname}, where {inner[0][1]}"))
+                        break
+        elif isinstance(n, (ast.Attribute, ast.Subscript)) and isinstance(n.ctx, (ast.Store, ast.Del)):
+            if is_entry(n.value):
+                out.append((n, f"`{norm(n)}` is stored into the verified-peer entry found under the key named in the datagram"))
+            elif isinstance(n, ast.Subscript) and (chain(_expand(fi, n.value)) or "").endswith(_REGISTRY):
+                out.append((n, f"`{norm(n)}` writes the verified-peer registry"))
+    cache[key] = (fi.node, out)
+    return out
+
+
+def rule_effects_after_verdict(ctx: Ctx) -> None:
+    """
+    A datagram that names key K in its authentication header proves nothing about K until its signature has been
+    verified.  Necessary condition decided here: inside the authenticating wrappers (and _ez_unpack_auth) nothing that
+    changes a verified-peer entry - in particular `peer.add_address(source_address)` on the entry looked up under K -
+    is reachable without a positive verdict: otherwise anybody who knows K's PUBLIC key moves the verified peer K to an
+    address of his choice with an unsigned datagram, i.e. makes the node attribute a datagram to a key he does not hold.
+    """
+    repo = ctx.repo
+    todo: list[tuple[FuncInfo, str, str]] = []
+    for deco in sorted(AUTH_DECOS):
+        fi, _fname = _find_wrapper(ctx, deco)
+        todo.append((fi, fi.params()[2], deco))
+    base = repo.method("EZPackOverlay", "_ez_unpack_auth", LC)
+    for o in repo.dispatch(base.cls, "_ez_unpack_auth"):
+        if len(o.params()) >= 3:
+            todo.append((o, o.params()[2], o.qualname))
+    n_sites = 0
+    for fi, data_name, label in todo:
+        cfg = ctx.cfg(fi)
+        for site, what in _registry_effects(ctx, fi):
+            nodes = [n for n in cfg.nodes_for(site) if cfg.reachable(n)]
+            if not nodes:
+                continue
+            n_sites += 1
+            facts = _site_facts(ctx, fi, cfg, site)
+            vcall, _asserted = _dominating_verification(ctx, fi, facts, site)
+            ok = vcall is not None or _dominating_unpacker(ctx, fi, cfg, site, data_name) is not None
+            ctx.check(ok, "effect-after-verdict", fi, site,
+                      f"{label}: change of a verified-peer entry only after a positive _verify_signature(...) verdict",
+                      f"{label}: {what} on a path on which the signature of the datagram has not (yet) been found valid: "
+                      "an unsigned datagram that merely NAMES a key in its authentication header already changes what the "
+                      "node believes about the verified peer with that key (e.g. peer.add_address(source_address) re-homes "
+                      "it to the sender's address), although the handler itself is never called",
+                      [str(f) for f in facts])
+    ctx.instance("effect-after-verdict", LC, f"{n_sites} change(s) of verified-peer state in the authenticating wrappers examined",
+                 nontrivial=n_sites > 0)
 
 
 def _check_vs_definition(ctx: Ctx, fi: FuncInfo, skip=(), override: bool = False) -> list[dict]:
@@ -1523,11 +2256,113 @@ def rule_verify_signature(ctx: Ctx) -> None:
         if len(ctx.findings) == before:
             # same promise also means: same places for datagram / key / verdict / remainder as the reviewed method
             op, bp = o.params(), base.params()
-            same = all((op.index(s["data_param"]), op.index(s["key_param"]), s["key_kind"], s["verdict_idx"], s["remainder_idx"])
-                       == (bp.index(vs.data_param), bp.index(vs.key_param), vs.key_kind, vs.verdict_idx, vs.remainder_idx)
+            same = all((op.index(s["data_param"]), op.index(s["key_param"]), s["key_kind"], s["verdict_idx"], s["remainder_idx"],
+                        s["verdict_enc"])
+                       == (bp.index(vs.data_param), bp.index(vs.key_param), vs.key_kind, vs.verdict_idx, vs.remainder_idx,
+                           vs.verdict_enc)
                        for s in shapes)
             ctx.check(same, "whole-prefix", o, o.node, f"{o.qualname}: same parameter / result layout as the reviewed method",
                       "an override of _verify_signature returns verdict / remainder in other places than the callers read them")
+
+
+def _function_imports(fi: FuncInfo) -> dict:
+    """module imports plus the imports made inside fi: local name -> (module, attribute | None)"""
+    imports = dict(fi.module.imports)
+    for n in walk_no_nested(fi.node):
+        if isinstance(n, ast.ImportFrom) and not n.level:
+            imports.update({a.asname or a.name: (n.module or "", a.name) for a in n.names})
+        elif isinstance(n, ast.Import):
+            imports.update({a.asname or a.name.split(".")[0]: (a.name if a.asname else a.name.split(".")[0], None)
+                            for a in n.names})
+    return imports
+
+
+def _imported_as(fi: FuncInfo, f: ast.AST, module: str, names: tuple[str, ...]) -> bool:
+    """is expression f (a callee) `<module>.<name>` / a name imported `from <module> import <name>`?"""
+    imports = _function_imports(fi)
+    if isinstance(f, ast.Name) and f.id not in _local_names(fi):
+        return imports.get(f.id, (None, None))[0] == module and imports[f.id][1] in names
+    if isinstance(f, ast.Attribute) and isinstance(f.value, ast.Name) and f.value.id not in _local_names(fi):
+        return f.attr in names and imports.get(f.value.id) == (module, None)
+    return False
+
+
+def _builtin_chain(fi: FuncInfo, e: ast.AST) -> str | None:
+    return e.id if isinstance(e, ast.Name) and not _module_binds(fi, e.id) else None
+
+
+def _is_concat_function(fi: FuncInfo, f: ast.AST) -> bool:
+    """operator.add / operator.concat / lambda a, b: a + b"""
+    if _imported_as(fi, f, "operator", ("add", "concat", "iadd", "iconcat")):
+        return True
+    if isinstance(f, ast.Lambda) and len(f.args.args) == 2 and not (f.args.vararg or f.args.kwarg or f.args.kwonlyargs
+                                                                     or f.args.defaults or f.args.posonlyargs):
+        a, b = (x.arg for x in f.args.args)
+        body = f.body
+        return isinstance(body, ast.BinOp) and isinstance(body.op, ast.Add) and isinstance(body.left, ast.Name) \
+            and isinstance(body.right, ast.Name) and (body.left.id, body.right.id) == (a, b)
+    return False
+
+
+def _sequence_items(fi: FuncInfo, seq: ast.AST, depth: int = 4) -> list[ast.AST] | None:
+    """
+    the item expressions, in order, of a sequence that is spelled out: a list / tuple display (also with `*display`
+    items), a single-assignment local holding one that is never mutated, list(..) / tuple(..) / iter(..) of one,
+    display + display, itertools.chain(d1, d2, ...) and chain.from_iterable(display of displays).  Else None.
+    """
+    seq = strip_cast(seq)
+    if depth <= 0:
+        return None
+    if isinstance(seq, ast.Name):
+        d = single_def(fi, seq.id)
+        mutated = any(isinstance(n, ast.Attribute) and isinstance(n.value, ast.Name) and n.value.id == seq.id
+                      for n in walk_no_nested(fi.node)) or \
+            any(isinstance(n, ast.Subscript) and isinstance(n.ctx, (ast.Store, ast.Del)) and isinstance(n.value, ast.Name)
+                and n.value.id == seq.id for n in walk_no_nested(fi.node)) or \
+            any(isinstance(n, ast.AugAssign) and isinstance(n.target, ast.Name) and n.target.id == seq.id
+                for n in walk_no_nested(fi.node))
+        return _sequence_items(fi, d[0], depth - 1) if d is not None and d[1] is None and not mutated else None
+    if isinstance(seq, (ast.List, ast.Tuple)):
+        out: list[ast.AST] = []
+        for x in seq.elts:
+            if isinstance(x, ast.Starred):
+                sub = _sequence_items(fi, x.value, depth - 1)
+                if sub is None:
+                    return None
+                out.extend(sub)
+            else:
+                out.append(x)
+        return out
+    if isinstance(seq, ast.BinOp) and isinstance(seq.op, ast.Add):
+        left, right = _sequence_items(fi, seq.left, depth - 1), _sequence_items(fi, seq.right, depth - 1)
+        if left is None or right is None or not (isinstance(strip_cast(seq.left), (ast.List, ast.Tuple, ast.Name))):
+            return None
+        return left + right
+    if isinstance(seq, ast.Call) and not seq.keywords and not any(isinstance(a, ast.Starred) for a in seq.args):
+        if len(seq.args) == 1 and _builtin_chain(fi, seq.func) in ("list", "tuple", "iter"):
+            return _sequence_items(fi, seq.args[0], depth - 1)
+        if _imported_as(fi, seq.func, "itertools", ("chain",)):
+            out = []
+            for a in seq.args:
+                sub = _sequence_items(fi, a, depth - 1)
+                if sub is None:
+                    return None
+                out.extend(sub)
+            return out
+        f = seq.func
+        if isinstance(f, ast.Attribute) and f.attr == "from_iterable" and _imported_as(fi, f.value, "itertools", ("chain",)) \
+                and len(seq.args) == 1:
+            outer = _sequence_items(fi, seq.args[0], depth - 1)
+            if outer is None:
+                return None
+            out = []
+            for a in outer:
+                sub = _sequence_items(fi, a, depth - 1)
+                if sub is None:
+                    return None
+                out.extend(sub)
+            return out
+    return None
 
 
 def _concat_parts_at(cfg, fi: FuncInfo, node, e: ast.AST, depth: int = 8) -> list[list[ast.AST]] | None:
@@ -1544,21 +2379,37 @@ def _concat_parts_at(cfg, fi: FuncInfo, node, e: ast.AST, depth: int = 8) -> lis
         if left is None or right is None:
             return None
         return [a + b for a in left for b in right]
+    seq = None
     if isinstance(e, ast.Call) and isinstance(e.func, ast.Attribute) and e.func.attr == "join" and len(e.args) == 1 \
             and not e.keywords and isinstance(e.func.value, ast.Constant) and e.func.value.value == b"":
         # b"".join([a, b, c]) == a + b + c  (the list may sit in a single-assignment local that is not mutated)
-        seq = strip_cast(e.args[0])
-        if isinstance(seq, ast.Name):
-            d = single_def(fi, seq.id)
-            mutated = any(isinstance(n, ast.Attribute) and isinstance(n.value, ast.Name) and n.value.id == seq.id
-                          for n in walk_no_nested(fi.node)) or \
-                any(isinstance(n, ast.Subscript) and isinstance(n.ctx, (ast.Store, ast.Del)) and isinstance(n.value, ast.Name)
-                    and n.value.id == seq.id for n in walk_no_nested(fi.node))
-            seq = strip_cast(d[0]) if d is not None and d[1] is None and not mutated else None
-        if not isinstance(seq, (ast.List, ast.Tuple)) or any(isinstance(x, ast.Starred) for x in seq.elts) or not seq.elts:
+        seq = _sequence_items(fi, e.args[0])
+        if not seq:
             return None
+    elif isinstance(e, ast.Call) and not e.keywords and len(e.args) == 2 and not any(isinstance(a, ast.Starred) for a in e.args) \
+            and (_imported_as(fi, e.func, "operator", ("add", "concat", "iadd", "iconcat"))
+                 or (isinstance(e.func, ast.Attribute) and e.func.attr == "join"
+                     and _builtin_chain(fi, e.func.value) == "bytes" and isinstance(e.args[0], ast.Constant)
+                     and e.args[0].value == b"")):
+        if isinstance(e.func, ast.Attribute) and e.func.attr == "join":
+            seq = _sequence_items(fi, e.args[1])          # bytes.join(b"", [a, b])
+            if not seq:
+                return None
+        else:
+            seq = list(e.args)                            # operator.add(a, b) == a + b
+    elif isinstance(e, ast.Call) and isinstance(e.func, ast.Attribute) and e.func.attr == "__add__" and len(e.args) == 1 \
+            and not e.keywords and not isinstance(e.args[0], ast.Starred):
+        seq = [e.func.value, e.args[0]]                   # a.__add__(b) == a + b
+    elif isinstance(e, ast.Call) and not e.keywords and 2 <= len(e.args) <= 3 \
+            and _imported_as(fi, e.func, "functools", ("reduce",)) and _is_concat_function(fi, e.args[0]):
+        # reduce(add, [a, b, c][, start]) == start + a + b + c
+        items = _sequence_items(fi, e.args[1])
+        if not items:
+            return None
+        seq = ([e.args[2]] if len(e.args) == 3 else []) + items
+    if seq is not None:
         acc: list[list[ast.AST]] = [[]]
-        for x in seq.elts:
+        for x in seq:
             sub = _concat_parts_at(cfg, fi, node, x, depth - 1)
             if sub is None:
                 return None
@@ -1615,6 +2466,12 @@ def _signature_flow(fi: FuncInfo, cfg, sig: ast.AST) -> tuple[list, bool, bool]:
             appended.append((cfg.nodes_for(p), p.target))
         elif isinstance(p, ast.BinOp) and isinstance(p.op, ast.Add) and p.right is s:
             appended.append((cfg.nodes_for(p), p.left))
+        elif isinstance(p, (ast.List, ast.Tuple)) and len(p.elts) >= 2 and p.elts[-1] is s and isinstance(parent(p), ast.Call) \
+                and isinstance(parent(p).func, ast.Attribute) and parent(p).func.attr == "join" and parent(p).args == [p] \
+                and isinstance(parent(p).func.value, ast.Constant) and parent(p).func.value.value == b"":
+            # b"".join([a, b, sig]): the signature is appended to a + b
+            before = ast.Call(func=parent(p).func, args=[ast.List(elts=list(p.elts[:-1]), ctx=ast.Load())], keywords=[])
+            appended.append((cfg.nodes_for(p), before))
         elif isinstance(p, (ast.Assign, ast.AnnAssign)) and p.value is s:
             tgts = p.targets if isinstance(p, ast.Assign) else [p.target]
             if len(tgts) == 1 and isinstance(tgts[0], ast.Name):
@@ -1632,6 +2489,42 @@ def _signature_flow(fi: FuncInfo, cfg, sig: ast.AST) -> tuple[list, bool, bool]:
     return appended, returned, lost
 
 
+def _one_byte_format(v) -> bool:
+    return isinstance(v, str) and v.lstrip("@=<>!") in ("B", "b", "c") and len(v) <= 2
+
+
+def _is_single_byte(ctx: Ctx, fi: FuncInfo, x: ast.AST) -> bool:
+    """the message-id byte: bytes([n]) / bytes((n,)), n.to_bytes(1, ..), struct.pack("B", n), <Struct("B")>.pack(n)"""
+    x = strip_cast(x)
+    if not isinstance(x, ast.Call) or any(isinstance(a, ast.Starred) for a in x.args):
+        return False
+    if chain(x.func) == "bytes":
+        return True
+    f = x.func
+    if isinstance(f, ast.Attribute) and f.attr == "to_bytes" and x.args:
+        n = x.args[1] if _builtin_chain(fi, f.value) == "int" and len(x.args) > 1 else x.args[0]
+        return ctx.repo.resolve_const(fi.module, n, fi.cls) == 1
+    if _imported_as(fi, f, "struct", ("pack",)) and len(x.args) == 2:
+        return _one_byte_format(ctx.repo.resolve_const(fi.module, x.args[0], fi.cls))
+    if isinstance(f, ast.Attribute) and f.attr == "pack" and len(x.args) == 1 and not x.keywords:
+        # a precompiled struct.Struct held in a module constant / class attribute
+        recv = strip_cast(f.value)
+        made = None
+        if isinstance(recv, ast.Name) and recv.id not in _local_names(fi):
+            r = ctx.repo.resolve_name(fi.module, recv.id)
+            made = r[2] if isinstance(r, tuple) and r[0] == "const" else None
+        elif isinstance(recv, ast.Name):
+            d = single_def(fi, recv.id)
+            made = d[0] if d is not None and d[1] is None else None
+        elif isinstance(recv, ast.Attribute) and isinstance(recv.value, ast.Name) and recv.value.id in ("self", "cls") \
+                and fi.cls is not None:
+            made = fi.cls.lookup_attr(recv.attr)
+        made = strip_cast(made) if made is not None else None
+        if isinstance(made, ast.Call) and call_name(made) == "Struct" and len(made.args) == 1 and not made.keywords:
+            return _one_byte_format(ctx.repo.resolve_const(fi.module, made.args[0], fi.cls))
+    return False
+
+
 def rule_sign_side(ctx: Ctx) -> None:
     repo = ctx.repo
     from ..model import enclosing_stmt
@@ -1642,6 +2535,19 @@ def rule_sign_side(ctx: Ctx) -> None:
                 continue
             if fi.cls is not None and (fi.cls.is_subclass_of("Overlay")):
                 sites.append((fi, c, arg(c, 1, "data"), 0))
+        if fi.cls is not None and fi.cls.is_subclass_of("Overlay") and any(
+                isinstance(n, ast.Attribute) and n.attr == "create_signature" and not (
+                    isinstance(parent(n), ast.Call) and parent(n).func is n) for n in walk_no_nested(fi.node)):
+            # create_signature handed to functools.partial / operator.methodcaller: the calls that apply the result
+            for c in calls(fi):
+                if isinstance(strip_cast(resolve(fi, c.func)), ast.Call):
+                    full = _desugar_functional(fi, _expand(fi, c))
+                    if isinstance(full, ast.Call) and call_name(full) == "create_signature":
+                        signed = arg(full, 1, "data")
+                        # the expression as written at the call (a local that is re-assigned must be read there)
+                        orig = [a for a in ast.walk(c) if isinstance(a, ast.Name) and signed is not None
+                                and isinstance(signed, ast.Name) and a.id == signed.id]
+                        sites.append((fi, c, orig[0] if orig else signed, 0))
     # anchor floor: signing sites, plus call sites of the signing functions from other overlay methods (two packers that
     # were merged into one still sign for two callers)
     signing = {id(f.node): f for f, _, _, _ in sites}
@@ -1706,8 +2612,7 @@ def rule_sign_side(ctx: Ctx) -> None:
                 return _xnorm(fi, p) in ("prefix", "self._prefix")
 
             def is_msg(p, fi=fi) -> bool:
-                x = _expand(fi, p)
-                return isinstance(x, ast.Call) and chain(x.func) == "bytes"
+                return _is_single_byte(ctx, fi, _expand(fi, p))
 
             starts_with_prefix = all(parts and is_prefix(parts[0]) for parts in signed_alts)
             has_msg = all(len(parts) > 1 and is_msg(parts[1]) for parts in signed_alts)
@@ -1721,12 +2626,93 @@ def rule_sign_side(ctx: Ctx) -> None:
         ctx.check(ok, "sign-covers-all", fi, st, "signature computed over prefix+msg_id+payloads and appended to it", reason)
 
 
+def _suppressed_types(fi: FuncInfo, item: ast.withitem) -> list[ast.AST] | None:
+    """the exception classes E... when the context manager is `contextlib.suppress(E...)` (not bound with `as`)"""
+    e = item.context_expr
+    if item.optional_vars is not None or not isinstance(e, ast.Call) or e.keywords or not e.args \
+            or any(isinstance(a, ast.Starred) for a in e.args):
+        return None
+    imports = _function_imports(fi)          # an import inside the function binds the name for the function
+    f = e.func
+    if isinstance(f, ast.Name) and f.id not in _local_names(fi) and imports.get(f.id) == ("contextlib", "suppress"):
+        return list(e.args)
+    if isinstance(f, ast.Attribute) and f.attr == "suppress" and isinstance(f.value, ast.Name) \
+            and f.value.id not in _local_names(fi) and imports.get(f.value.id) == ("contextlib", None):
+        return list(e.args)
+    return None
+
+
+def _without_suppress(ctx: Ctx, fi: FuncInfo) -> FuncInfo:
+    """
+    fi, or - when it uses `with contextlib.suppress(E...): BODY` - a copy of it in which every such statement is spelled
+    `try: BODY` / `except (E...): pass`, which is what it means (suppress.__exit__ swallows exactly the exceptions that
+    are instances of E... and execution continues after the statement).  The engine's CFG treats a `with` body like a
+    plain block (an exception leaves the function), so the copy is what has to be analysed.  Several items of one
+    `with` are nested left to right, as the language defines.
+    """
+    from ..model import clone, parent, set_parents
+    if not any(isinstance(n, ast.With) and any(_suppressed_types(fi, i) is not None for i in n.items)
+               for n in walk_no_nested(fi.node)):
+        return fi
+    cache = getattr(ctx, "_c01_desugared", None)
+    if cache is None:
+        cache = ctx._c01_desugared = {}       # type: ignore[attr-defined]
+    if id(fi.node) in cache:
+        return cache[id(fi.node)][1]
+    new = clone(fi.node)
+
+    def rewrite_block(stmts: list) -> list:
+        out = []
+        for st in stmts:
+            for f in ("body", "orelse", "finalbody"):
+                v = getattr(st, f, None)
+                if isinstance(v, list) and v and isinstance(v[0], ast.stmt) \
+                        and not isinstance(st, (ast.FunctionDef, ast.AsyncFunctionDef, ast.ClassDef)):
+                    setattr(st, f, rewrite_block(v))
+            for h in getattr(st, "handlers", []) or []:
+                h.body = rewrite_block(h.body)
+            for c in getattr(st, "cases", []) or []:
+                c.body = rewrite_block(c.body)
+            if isinstance(st, ast.With) and any(_suppressed_types(fi, i) is not None for i in st.items):
+                inner = st.body
+                for item in reversed(st.items):
+                    types = _suppressed_types(fi, item)
+                    if types is None:
+                        w = ast.With(items=[item], body=inner)
+                    else:
+                        t = types[0] if len(types) == 1 else ast.Tuple(elts=types, ctx=ast.Load())
+                        h = ast.copy_location(ast.ExceptHandler(type=t, name=None, body=[ast.copy_location(ast.Pass(), st)]), st)
+                        w = ast.Try(body=inner, handlers=[h], orelse=[], finalbody=[])
+                    inner = [ast.copy_location(w, st)]
+                out.extend(inner)
+            else:
+                out.append(st)
+        return out
+
+    new.body = rewrite_block(new.body)
+    ast.fix_missing_locations(new)
+    set_parents(new)
+    new._parent = parent(fi.node)         # type: ignore[attr-defined]
+    nfi = FuncInfo(fi.name, fi.qualname, new, fi.module, fi.cls)
+    new._info = nfi                       # type: ignore[attr-defined]
+    cache[id(fi.node)] = (fi.node, nfi)
+    return nfi
+
+
 def rule_is_valid_signature(ctx: Ctx) -> None:
-    fi = ctx.repo.method("ECCrypto", "is_valid_signature", "ipv8/keyvault/crypto.py")
+    fi = _without_suppress(ctx, ctx.repo.method("ECCrypto", "is_valid_signature", "ipv8/keyvault/crypto.py"))
     cfg = ctx.cfg(fi)
     params = fi.params()
     key, data, sig = params[1], params[2], params[3]
     vcalls = [c for c in calls(fi) if call_name(c) == "verify"]
+    effective: dict[int, ast.Call] = {}
+    for c in calls(fi):
+        # operator.methodcaller("verify", sig, data)(key) / functools.partial(key.verify, sig)(data): the call they make
+        if not any(c is x for x in vcalls) and isinstance(strip_cast(resolve(fi, c.func)), ast.Call):
+            full = _desugar_functional(fi, _expand(fi, c))
+            if isinstance(full, ast.Call) and isinstance(full.func, ast.Attribute) and full.func.attr == "verify":
+                vcalls.append(c)
+                effective[id(c)] = full
     ctx.anchor(vcalls, "ec_key.verify call in ECCrypto.is_valid_signature")
     from ..model import enclosing_stmt
     ret_stmts = [n for n in walk_no_nested(fi.node) if isinstance(n, ast.Return)]
@@ -1735,21 +2721,113 @@ def rule_is_valid_signature(ctx: Ctx) -> None:
     def is_false(e) -> bool:
         return isinstance(e, ast.Constant) and e.value is False
 
+    def held_since(node, e, start) -> list:
+        """values of `e` on entry to node on a path from start (not assigned since start: the value it had at start -
+        an assignment that raised did not assign)"""
+        got = _values_at(cfg, fi, node, e, start)
+        if start is not cfg.entry and any(v is _UNBOUND for v in got):
+            got = [v for v in got if v is not _UNBOUND] + _values_at(cfg, fi, start, e, cfg.entry)
+        return got
+
+    def excluded(node, test, pol: bool, start) -> bool:
+        """can `test`, evaluated at node on a path from start, never come out as pol?  Decided for a test of a local
+        flag all of whose possible values are constants (`if failed:`, `if not ok:`, `if tag is None:`)"""
+        if isinstance(test, ast.UnaryOp) and isinstance(test.op, ast.Not):
+            return excluded(node, test.operand, not pol, start)
+        f = fact_of(test, pol)
+        for operand, on_left in ((f.left, True), (f.right, False)):
+            operand = strip_cast(operand) if operand is not None else None
+            if isinstance(operand, ast.Name) and operand.id not in fi.params() and local_defs(fi, operand.id):
+                vals = held_since(node, operand, start)
+                if vals and all(v is not _UNBOUND and v is not _UNKNOWN and _contradicts(ctx, fi, f, on_left, v) for v in vals):
+                    return True
+        return False
+
+    def feasible_from(start):
+        """reachability from start without the outcomes of flag tests that the flag's possible values exclude"""
+        cuts = {(c, pol) for c in cfg.nodes if c.kind == "cond" for pol in (True, False) if excluded(c, c.ast, pol, start)}
+        return lambda **kw: cfg.reach([start], cut_edge=lambda u, v, lab: (u, lab) in cuts, **kw)
+
+    def flag_sources(cnode, test, pol: bool, start) -> list | None:
+        """the assignments (CFG nodes) of the local flag tested by `test` at cnode that can have produced outcome pol on
+        a path from start; None unless `test` tests a local every possible value of which is a static constant.  When
+        the test came out as pol, the flag was last assigned at one of these nodes."""
+        if isinstance(test, ast.UnaryOp) and isinstance(test.op, ast.Not):
+            return flag_sources(cnode, test.operand, not pol, start)
+        f = fact_of(test, pol)
+        for operand, on_left in ((f.left, True), (f.right, False)):
+            operand = strip_cast(operand) if operand is not None else None
+            if not (isinstance(operand, ast.Name) and operand.id not in fi.params() and local_defs(fi, operand.id)):
+                continue
+            defs = _def_nodes(cfg, fi, operand.id)
+            rd = set(_reaching(defs, start).get(cnode, set()))
+            if None in rd and start is not cfg.entry:
+                rd.discard(None)
+                rd |= _reaching(defs, cfg.entry).get(start, set())
+            if not rd or None in rd or any(defs[d] is None or _static_value(ctx, fi, defs[d]) is None for d in rd):
+                return None
+            return [d for d in rd if not _contradicts(ctx, fi, f, on_left, defs[d])]
+        return None
+
+    def expr_values(node, e, start, depth: int = 4) -> list:
+        """like held_since, also through conditional expressions / `flag and value` (excluded alternatives dropped; under
+        a test of a constant-valued flag: the values the expression can have after the assignments of the flag that
+        produce that outcome)"""
+        e = strip_cast(e)
+        if depth > 0 and isinstance(e, ast.IfExp):
+            out = []
+            for branch, pol in ((e.body, True), (e.orelse, False)):
+                if excluded(node, e.test, pol, start):
+                    continue
+                srcs = flag_sources(node, e.test, pol, start)
+                for st in ([start] if srcs is None else srcs):
+                    out.extend(expr_values(node, branch, st, depth - 1))
+            return out
+        if depth > 0 and isinstance(e, ast.BoolOp) and isinstance(e.op, ast.And) and len(e.values) == 2:
+            # `a and b`: a when a is falsy, else b
+            first = expr_values(node, e.values[0], start, depth - 1)
+            if all(isinstance(v, ast.Constant) and isinstance(v.value, bool) for v in first):
+                out = [v for v in first if not v.value]
+                if any(v.value for v in first):
+                    out.extend(expr_values(node, e.values[1], start, depth - 1))
+                return out
+            return [e]
+        got = held_since(node, e, start)
+        if depth > 0 and any(isinstance(v, (ast.IfExp, ast.BoolOp)) and v is not e for v in got if isinstance(v, ast.AST)):
+            return [_UNKNOWN]            # a conditional value stored in a local: evaluated elsewhere, not followed
+        return got
+
     def returned_values(start) -> list[tuple[ast.Return, list]]:
-        """for every return reachable from `start`: the expressions whose value it can hand back on a path from start
-        (through locals: reaching definitions, so `v = verify(); ... return v` is the same as `return verify()`)"""
-        seen = cfg.reach([start])
+        """for every return that can be reached from `start`: the expressions whose value it can hand back on a path
+        from start (through locals: reaching definitions, so `v = verify(); ... return v` is the same as `return verify()`)"""
+        seen = feasible_from(start)()
         out = []
         for r in ret_stmts:
             vals = []
             for n in cfg.nodes_for(r):
-                if n in seen:
-                    got = [ast.Constant(value=None)] if r.value is None else _values_at(cfg, fi, n, r.value, start)
-                    if start is not cfg.entry and any(v is _UNBOUND for v in got):
-                        # not assigned since `start`: it still has the value it had when `start` was entered
-                        # (an assignment that raised did not assign)
-                        got = [v for v in got if v is not _UNBOUND] + _values_at(cfg, fi, start, r.value, cfg.entry)
-                    vals.extend(got)
+                if n not in seen:
+                    continue
+                if r.value is None:
+                    vals.append(ast.Constant(value=None))
+                    continue
+                starts = [start]
+                if start is cfg.entry:
+                    # a dominating test of a constant-valued flag that is not re-assigned on the way to the return:
+                    # the path came through one of the flag's assignments that produce that outcome
+                    for atom, pol in _own_facts(cfg, n):
+                        for cn in cfg.nodes_for(atom):
+                            srcs = flag_sources(cn, atom, pol, start) if cn.kind == "cond" else None
+                            if srcs is None:
+                                continue
+                            after = cfg.reach([v for v, lab in cn.succ if lab is pol], cut_nodes=[cn])
+                            names = {x.id for x in ast.walk(atom) if isinstance(x, ast.Name)}
+                            if any(d in after for nm in names if nm not in fi.params() and local_defs(fi, nm)
+                                   for d in _def_nodes(cfg, fi, nm)):
+                                continue
+                            if len(starts) == 1 and starts[0] is start or len(srcs) < len(starts):
+                                starts = srcs
+                for st in starts:
+                    vals.extend(expr_values(n, r.value, st))
             if vals:
                 out.append((r, vals))
         return out
@@ -1769,15 +2847,16 @@ def rule_is_valid_signature(ctx: Ctx) -> None:
                 for r, vals in returned_values(h):
                     if not all(v is not _UNBOUND and v is not _UNKNOWN and is_false(v) for v in vals):
                         ok_try = False
-                if cfg.exit in cfg.reach([h], cut_nodes=ret_nodes):
+                if cfg.exit in feasible_from(h)(cut_nodes=ret_nodes):
                     ok_try = False   # falls off the end without a return
         ctx.check(ok_try, "exception-safe-validate", fi, st, "verify() wrapped in try/except Exception that yields False",
                   "an exception in verify() is not turned into `False`")
         ok_ret = any(any(v is c for v in vals) for _, vals in from_entry)
         ctx.check(ok_ret, "exception-safe-validate", fi, st, "is_valid_signature returns verify()'s own result",
                   "the result of verify() is not what is_valid_signature returns")
-        ok_args = (chain(_expand(fi, c.func)) == f"{key}.verify" and len(c.args) == 2 and not c.keywords
-                   and _xnorm(fi, c.args[0]) == sig and _xnorm(fi, c.args[1]) == data
+        cc = effective.get(id(c), c)
+        ok_args = (chain(_expand(fi, cc.func)) == f"{key}.verify" and len(cc.args) == 2 and not cc.keywords
+                   and _xnorm(fi, cc.args[0]) == sig and _xnorm(fi, cc.args[1]) == data
                    and not local_defs(fi, key) and not local_defs(fi, data) and not local_defs(fi, sig))
         ctx.check(ok_args, "exception-safe-validate", fi, c, "verify(signature, data) on the given key with unmodified arguments",
                   "verify() is not called as key.verify(signature, data) with the function's own arguments")
@@ -1844,7 +2923,18 @@ def classify_handler(ctx: Ctx, fi: FuncInfo) -> str:
         if not (isinstance(a, ast.Name) and a.id == data_name and _is_param_unmodified(fi, data_name)):
             return "raw"
     # what each verifying call returns: (position of the verified auth payload, position of the verified key)
-    kinds: dict[int, tuple] = {id(c): (0, True, None) for c in direct}
+    ez_fields = None
+    if direct:
+        # the reviewed unpacker may hand its results back as a record: its components then also have names
+        try:
+            ez = ctx.repo.method("EZPackOverlay", "_ez_unpack_auth", LC)
+            rets = [n for n in walk_no_nested(ez.node) if isinstance(n, ast.Return) and n.value is not None]
+            layouts = {tuple(cs[1]) if cs is not None and cs[1] else None
+                       for cs in (_components(ctx, ez, _expand(ez, r.value)) for r in rets)}
+            ez_fields = next(iter(layouts)) if len(layouts) == 1 else None
+        except AnalysisError:
+            ez_fields = None
+    kinds: dict[int, tuple] = {id(c): (0, True, None, ez_fields) for c in direct}
     ucalls = list(direct)
     if fi.cls is not None and fi.cls.is_subclass_of("EZPackOverlay"):
         try:
@@ -1877,12 +2967,12 @@ def classify_handler(ctx: Ctx, fi: FuncInfo) -> str:
             return "raw"
         for kk in _alternatives(fi, k):
             good = False
-            for (a_idx, has_auth, k_idx), grp in groups.items():
+            for (a_idx, has_auth, k_idx, flds), grp in groups.items():
                 # every definition of the value must come from this group; the other groups then cannot be its source
                 if len(groups) > 1 and not all(cfg.must_complete(n, [m for g in grp for m in cfg.nodes_for(g)])
                                                for n in cfg.nodes_for(c) if cfg.reachable(n)):
                     continue
-                if _Verified(fi, ucalls=grp, auth_idx=a_idx, has_auth=has_auth, key_idx=k_idx).is_key(kk):
+                if _Verified(fi, ucalls=grp, auth_idx=a_idx, has_auth=has_auth, key_idx=k_idx, fields=flds).is_key(kk):
                     good = True
             if not good:
                 return "raw"
@@ -2038,24 +3128,34 @@ def _loop_bindings(ctx: Ctx, fi: FuncInfo, call: ast.Call) -> list[dict[str, ast
     the call inside fi; [{}] when the call is in no loop; None when an enclosing loop cannot be enumerated.
     """
     from ..model import ancestors
-    loops = []
+    loops = []                       # innermost first: (target, iterable)
+    inner = call
     for a in ancestors(call):
         if a is fi.node:
             break
         if isinstance(a, (ast.For, ast.AsyncFor)):
-            loops.append(a)
-        elif isinstance(a, (ast.While, ast.ListComp, ast.SetComp, ast.DictComp, ast.GeneratorExp)):
+            if any(inner is x for x in a.orelse):
+                pass                         # in the else clause: not inside the loop body
+            else:
+                loops.append((a.target, a.iter))
+        elif isinstance(a, (ast.ListComp, ast.SetComp, ast.GeneratorExp, ast.DictComp)):
+            # the element expression of a comprehension is evaluated once per combination of its generators
+            if any(g.ifs or g.is_async for g in a.generators) or any(inner is g for g in a.generators):
+                return None
+            loops.extend((g.target, g.iter) for g in reversed(a.generators))
+        elif isinstance(a, (ast.While, ast.Lambda)):
             return None
+        inner = a
     envs: list[dict[str, ast.AST]] = [{}]
-    for lp in reversed(loops):
-        elems = _iter_elements(ctx, fi, lp.iter)
+    for l_target, l_iter in reversed(loops):
+        elems = _iter_elements(ctx, fi, l_iter)
         if elems is None:
             return None
         nxt = []
         for env in envs:
             for el in elems:
                 e2 = dict(env)
-                t = lp.target
+                t = l_target
                 if isinstance(t, ast.Name):
                     e2[t.id] = el
                 elif isinstance(t, (ast.Tuple, ast.List)) and isinstance(el, (ast.Tuple, ast.List)) and len(t.elts) == len(el.elts) \
@@ -2071,6 +3171,63 @@ def _loop_bindings(ctx: Ctx, fi: FuncInfo, call: ast.Call) -> list[dict[str, ast
     return envs
 
 
+def _registration_calls(ctx: Ctx, fi: FuncInfo) -> list[tuple[ast.Call, str, ast.AST | None, ast.AST | None, dict]]:
+    """
+    (call node, 'add_message_handler' | 'add_cell_handler', message expr, handler expr, loop environment) for every
+    registration fi makes: direct calls (one per iteration of enclosing loops / comprehensions over literal tables, a
+    `*pair` argument standing for the entries of the pair), and the bound method handed to itertools.starmap / map
+    together with literal tables.
+    """
+    names = ("add_message_handler", "add_cell_handler")
+    out = []
+    for c in calls(fi, ["self." + n for n in names]):
+        kind = call_name(c)
+        envs = _loop_bindings(ctx, fi, c)
+        blind = envs is None           # inside a loop whose table cannot be enumerated: fine when the handler is fixed
+        for env in (envs or [{}]):
+            args: list = []
+            for a in c.args:
+                if isinstance(a, ast.Starred):
+                    v = strip_cast(a.value)
+                    if isinstance(v, ast.Name) and v.id in env:
+                        v = strip_cast(env[v.id])
+                    items = _sequence_items(fi, v)
+                    if items is None:
+                        raise AnalysisError(f"undecided: {fi.qualname} registers handlers with `*` arguments that "
+                                            f"cannot be enumerated: `{norm(c)}`")
+                    args.extend(items)
+                else:
+                    args.append(a)
+            kw = {k.arg: k.value for k in c.keywords}
+            msg = args[0] if args else kw.get("msg_num")
+            h = args[1] if len(args) > 1 else (kw.get("callback") or kw.get("handler"))
+            out.append((c, kind, msg, h, {**env, "<blind>": True} if blind else env))
+    # the registration method itself handed to starmap / map
+    for n in walk_no_nested(fi.node):
+        if not (isinstance(n, ast.Attribute) and n.attr in names and isinstance(n.ctx, ast.Load)
+                and isinstance(n.value, ast.Name) and n.value.id == "self"):
+            continue
+        p = parent(n)
+        if isinstance(p, ast.Call) and p.func is n:
+            continue
+        pairs = None
+        if isinstance(p, ast.Call) and p.args and p.args[0] is n and not p.keywords \
+                and not any(isinstance(a, ast.Starred) for a in p.args):
+            if len(p.args) == 2 and _imported_as(fi, p.func, "itertools", ("starmap",)):
+                rows = _iter_elements(ctx, fi, p.args[1])
+                if rows is not None and all(isinstance(r, (ast.Tuple, ast.List)) and len(r.elts) == 2 for r in rows):
+                    pairs = [(r.elts[0], r.elts[1]) for r in rows]
+            elif len(p.args) == 3 and _builtin_chain(fi, p.func) == "map":
+                ms, hs = _iter_elements(ctx, fi, p.args[1]), _iter_elements(ctx, fi, p.args[2])
+                if ms is not None and hs is not None:
+                    pairs = list(zip(ms, hs))         # map stops at the shorter table
+        if pairs is None or _loop_bindings(ctx, fi, p) != [{}]:
+            raise AnalysisError(f"undecided: {fi.qualname} hands `{norm(n)}` on as a value; the registrations made "
+                                "through it cannot be enumerated")
+        out.extend((p, n.attr, m, h, {}) for m, h in pairs)
+    return out
+
+
 def registrations(ctx: Ctx):
     """
     (registering class, kind, msg expr, handler name, call, function) for every registration made by an
@@ -2082,29 +3239,27 @@ def registrations(ctx: Ctx):
         if not ci.is_subclass_of("Overlay") and ci.name != "Overlay":
             continue
         for fi in ci.methods.values():
-            for c in calls(fi, ["self.add_message_handler", "self.add_cell_handler"]):
-                kind = call_name(c)
-                h0 = strip_cast(arg(c, 1, "callback") or arg(c, 1, "handler"))
-                envs = _loop_bindings(ctx, fi, c) or [{}]
-                for env in envs:
-                    h = h0
-                    if isinstance(h, ast.Name) and h.id in env:
-                        h = strip_cast(env[h.id])
-                    elif isinstance(h, ast.Name):
-                        h = strip_cast(resolve(fi, h))
-                    hn = h.attr if isinstance(h, ast.Attribute) and isinstance(h.value, ast.Name) and h.value.id == "self" else None
-                    if hn is None and isinstance(h, ast.Call) and isinstance(h.func, ast.Name) and h.func.id == "getattr" \
-                            and len(h.args) == 2 and not h.keywords and isinstance(h.args[0], ast.Name) and h.args[0].id == "self":
-                        # getattr(self, "on_x") with a name that is a literal (possibly the loop's table entry)
-                        nm = h.args[1]
-                        if isinstance(nm, ast.Name) and nm.id in env:
-                            nm = env[nm.id]
-                        nm = ctx.repo.resolve_const(fi.module, strip_cast(nm), fi.cls) if nm is not None else None
-                        hn = nm if isinstance(nm, str) else None
-                    m = arg(c, 0)
-                    if isinstance(m, ast.Name) and m.id in env:
-                        m = env[m.id]
-                    out.append((ci, kind, m, hn, c, fi))
+            for c, kind, m, h0, env in _registration_calls(ctx, fi):
+                h = strip_cast(h0) if h0 is not None else None
+                if isinstance(h, ast.Name) and h.id in env:
+                    h = strip_cast(env[h.id])
+                elif isinstance(h, ast.Name):
+                    h = strip_cast(resolve(fi, h))
+                hn = h.attr if isinstance(h, ast.Attribute) and isinstance(h.value, ast.Name) and h.value.id == "self" else None
+                if hn is None and isinstance(h, ast.Call) and isinstance(h.func, ast.Name) and h.func.id == "getattr" \
+                        and len(h.args) == 2 and not h.keywords and isinstance(h.args[0], ast.Name) and h.args[0].id == "self":
+                    # getattr(self, "on_x") with a name that is a literal (possibly the loop's table entry)
+                    nm = h.args[1]
+                    if isinstance(nm, ast.Name) and nm.id in env:
+                        nm = env[nm.id]
+                    nm = ctx.repo.resolve_const(fi.module, strip_cast(nm), fi.cls) if nm is not None else None
+                    hn = nm if isinstance(nm, str) else None
+                if hn is None and env.get("<blind>"):
+                    raise AnalysisError(f"undecided: {fi.qualname} registers handlers in a loop / comprehension whose "
+                                        f"table cannot be enumerated: `{norm(c)}`")
+                if isinstance(m, ast.Name) and m.id in env:
+                    m = env[m.id]
+                out.append((ci, kind, m, hn, c, fi))
     return out
 
 
@@ -2161,7 +3316,10 @@ def _dispatch_sites(ctx: Ctx, fi: FuncInfo, cfg) -> list[tuple[ast.Call, list[as
         if not nodes:
             continue
         direct = any(mentions(a, "self.decode_map") for a in _alternatives(fi, c.func))
-        if not direct and isinstance(c.func, ast.Name):
+        fsel = _selector(c.func)
+        if not direct and (isinstance(c.func, ast.Name) or (
+                fsel is not None and isinstance(strip_cast(fsel[0]), ast.Name) and strip_cast(fsel[0]).id not in fi.params()
+                and local_defs(fi, strip_cast(fsel[0]).id))):
             direct = any(v is not None and mentions(v, "self.decode_map")
                          for v, _, _ in _value_cases(ctx, fi, cfg, nodes[0], c.func))
         if direct:
@@ -2196,6 +3354,11 @@ def _dispatch_sites(ctx: Ctx, fi: FuncInfo, cfg) -> list[tuple[ast.Call, list[as
                     if isinstance(x, ast.Name) and _is_param_unmodified(t, x.id) and x.id in bound:
                         handed.append(bound[x.id])
                 out.append((c, handed))
+                inner = getattr(ctx, "_c01_inner_sites", None)
+                if inner is None:
+                    inner = ctx._c01_inner_sites = {}         # type: ignore[attr-defined]
+                if not any(x[1] is c2 for x in inner.setdefault(id(c), [])):
+                    inner[id(c)].append((t, c2))
     return out
 
 
@@ -2240,10 +3403,36 @@ def rule_own_prefix(ctx: Ctx) -> None:
     dominated by `self._prefix == D[:22]` (or D.startswith(self._prefix)) for the very bytes D handed to the handler.
     """
     repo = ctx.repo
-    fi = repo.method("Community", "on_packet", "ipv8/community.py")
-    cfg = ctx.cfg(fi)
-    hsites = _dispatch_sites(ctx, fi, cfg)
+    top = repo.method("Community", "on_packet", "ipv8/community.py")
+    top_cfg = ctx.cfg(top)
+    hsites = _dispatch_sites(ctx, top, top_cfg)
     ctx.anchor(hsites, "call of a decode_map handler in Community.on_packet")
+    for c, hargs in hsites:
+        # the comparison may dominate the site in on_packet itself or - when the invocation is made by a helper of the
+        # overlay - the handler call inside that helper (guard moved into the callee): either way every handler call
+        # is preceded by it
+        inner = getattr(ctx, "_c01_inner_sites", {}).get(id(c), [])
+        ok, facts, undecided = _own_prefix_checked(ctx, top, top_cfg, c, hargs)
+        if not ok and inner:
+            sub = [_own_prefix_checked(ctx, t, ctx.cfg(t), c2, list(c2.args)) for t, c2 in inner]
+            if all(r[0] for r in sub):
+                ok, facts, undecided = True, [f for r in sub for f in r[1]], None
+            else:
+                undecided = undecided or next((r[2] for r in sub if r[2]), None)
+        if not ok and undecided:
+            raise AnalysisError(undecided)
+        ctx.check(ok, "own-prefix-before-dispatch", top, c,
+                  "Community.on_packet: handler call dominated by self._prefix == data[:22] on the bytes it is given",
+                  "Community.on_packet dispatches to the (authenticated) handlers without comparing the datagram's "
+                  "22-byte prefix with the overlay's own prefix: a datagram signed for another overlay is accepted here "
+                  "(cross-overlay replay; the signer becomes a verified peer of an overlay it never addressed)",
+                  [str(f) for f in facts])
+
+
+def _own_prefix_checked(ctx: Ctx, fi: FuncInfo, cfg, c: ast.Call, hargs: list) -> tuple[bool, list, str | None]:
+    """(is call c in fi dominated by a comparison of the first 22 bytes of the very bytes in hargs with the overlay's own
+    prefix?, the facts at c, text of an `undecided` verdict when a dominating test relates the two in an unknown form)"""
+    repo = ctx.repo
 
     def own_prefix(e) -> bool:
         x = _expand(fi, e)
@@ -2276,12 +3465,22 @@ def rule_own_prefix(ctx: Ctx) -> None:
 
     def head_of(e) -> str | None:
         e = _xs(fi, e)
+        # bytes(X) / memoryview(X) / bytearray(X) compare equal to X; bytes(islice(X, n)) is X[:n]
+        while isinstance(e, ast.Call) and len(e.args) == 1 and not e.keywords and not isinstance(e.args[0], ast.Starred) \
+                and _builtin_chain(fi, e.func) in ("bytes", "memoryview", "bytearray"):
+            e = e.args[0]
+            if isinstance(e, ast.Call) and not e.keywords and len(e.args) == 2 and _imported_as(fi, e.func, "itertools", ("islice",)) \
+                    and not any(isinstance(a, ast.Starred) for a in e.args):
+                e = ast.copy_location(ast.Subscript(value=e.args[0], slice=ast.Slice(lower=None, upper=e.args[1], step=None),
+                                                    ctx=ast.Load()), e)
         if not (isinstance(e, ast.Subscript) and isinstance(e.slice, ast.Slice) and e.slice.step is None):
             return None
         lo, up = e.slice.lower, e.slice.upper
         if lo is not None and repo.resolve_const(fi.module, lo, fi.cls) != 0:
             return None
-        if up is None or repo.resolve_const(fi.module, up, fi.cls) != 22:
+        whole_prefix = isinstance(up, ast.Call) and not up.keywords and len(up.args) == 1 and _builtin_chain(fi, up.func) == "len" \
+            and own_prefix(up.args[0])              # X[:len(self._prefix)] == self._prefix  <=>  X.startswith(self._prefix)
+        if up is None or (not whole_prefix and repo.resolve_const(fi.module, up, fi.cls) != 22):
             return None
         return buffer_key(e.value)
 
@@ -2293,36 +3492,42 @@ def rule_own_prefix(ctx: Ctx) -> None:
             if own_prefix(f.right):
                 return head_of(f.left)
         if f.op == "truthy":
-            c = _expand(fi, f.left)
+            c = _desugar_functional(fi, _expand(fi, f.left))
             if isinstance(c, ast.Call) and isinstance(c.func, ast.Attribute) and c.func.attr == "startswith" \
                     and len(c.args) == 1 and not c.keywords and own_prefix(c.args[0]):
                 return buffer_key(c.func.value)
+            # operator.eq(a, b) / hmac.compare_digest(a, b): true exactly when a == b
+            if isinstance(c, ast.Call) and len(c.args) == 2 and not c.keywords \
+                    and not any(isinstance(a, ast.Starred) for a in c.args) \
+                    and (_imported_as(fi, c.func, "operator", ("eq",)) or _imported_as(fi, c.func, "hmac", ("compare_digest",))
+                         or _imported_as(fi, c.func, "secrets", ("compare_digest",))):
+                if own_prefix(c.args[0]):
+                    return head_of(c.args[1])
+                if own_prefix(c.args[1]):
+                    return head_of(c.args[0])
         return None
 
     def prefix_ish(x) -> bool:
         return mentions(x, "self._prefix") or mentions(x, lambda c: c.startswith("self.") and c.endswith("prefix()"))
 
-    for c, hargs in hsites:
-        facts = _site_facts(ctx, fi, cfg, c)
-        real = [f for f in facts if not _fact_in_assert(f)]
-        checked = {b for b in (compared_buffer(f) for f in real if f.pos) if b is not None}
-        # the bytes handed to the handler: values that cannot change inside the function among the arguments
-        handed = {k for k in (buffer_key(_expand(fi, x)) for x in hargs if not isinstance(x, ast.Starred)) if k is not None}
-        ok = bool(checked & handed)
-        # a dominating test that relates self._prefix to the dispatched bytes in a spelling not understood here
-        # cannot be judged either way
-        def relates(f) -> bool:
-            x = _expand(fi, f.atom)
-            return compared_buffer(f) is None and prefix_ish(x) and any(h in norm(x) for h in handed)
-        if not ok and any(relates(f) for f in real):
-            raise AnalysisError("undecided: Community.on_packet tests self._prefix before dispatch in a form this rule "
-                                f"does not understand: {[str(f) for f in facts]}")
-        ctx.check(ok, "own-prefix-before-dispatch", fi, c,
-                  "Community.on_packet: handler call dominated by self._prefix == data[:22] on the bytes it is given",
-                  "Community.on_packet dispatches to the (authenticated) handlers without comparing the datagram's "
-                  "22-byte prefix with the overlay's own prefix: a datagram signed for another overlay is accepted here "
-                  "(cross-overlay replay; the signer becomes a verified peer of an overlay it never addressed)",
-                  [str(f) for f in facts])
+    facts = _site_facts(ctx, fi, cfg, c)
+    real = [f for f in facts if not _fact_in_assert(f)]
+    checked = {b for b in (compared_buffer(f) for f in real if f.pos) if b is not None}
+    # the bytes handed to the handler: values that cannot change inside the function among the arguments
+    handed = {k for k in (buffer_key(_expand(fi, x)) for x in hargs if not isinstance(x, ast.Starred)) if k is not None}
+    ok = bool(checked & handed)
+
+    # a dominating test that relates self._prefix to the dispatched bytes in a spelling not understood here
+    # cannot be judged either way
+    def relates(f) -> bool:
+        x = _expand(fi, f.atom)
+        return compared_buffer(f) is None and prefix_ish(x) and any(h in norm(x) for h in handed)
+
+    undecided = None
+    if not ok and any(relates(f) for f in real):
+        undecided = (f"undecided: {fi.qualname} tests self._prefix before dispatch in a form this rule "
+                     f"does not understand: {[str(f) for f in facts]}")
+    return ok, facts, undecided
 
 
 def rule_no_bypass(ctx: Ctx) -> None:
@@ -2373,6 +3578,7 @@ def rule_no_bypass(ctx: Ctx) -> None:
 
 def run(ctx: Ctx) -> None:
     rule_wrappers(ctx)
+    rule_effects_after_verdict(ctx)
     rule_verify_signature(ctx)
     rule_sign_side(ctx)
     rule_is_valid_signature(ctx)
@@ -2438,7 +3644,50 @@ _CLAIMED_HELPER = """    def _claimed(self, data: bytes, **options: bool) -> int
         return data[22]
 
 """
+_W_VERIFY = """            signature_valid, remainder = self._verify_signature(auth, data)
+            unpacked = self.serializer.unpack_serializable_list(payloads, remainder, offset=23)
+            # ASSERT
+            if not signature_valid:
+                msg = (f"""
+_W_PRODUCE = """            peer = self.network.verified_by_public_key_bin.get(auth.public_key_bin)
+            if peer:
+                peer.add_address(source_address)
+            return func(self, peer or Peer(auth.public_key_bin, source_address), *unpacked)
+"""
+_SENDER_HELPER = """def _sender_peer(overlay: Overlay, public_key_bin: bytes, source_address: Address, **options: bool) -> Peer:
+    known = overlay.network.verified_by_public_key_bin.get(public_key_bin)
+    if known:
+        known.add_address(source_address)
+    return known or Peer(public_key_bin, source_address)
+
+
+def cache_retrieval_failed("""
 WITNESSES = [
+    {"name": "lazy_wrapper: verified-peer lookup AND add_address hoisted before the signature check (seeded C01-m11)",
+     "file": _LC, "rule": "effect-after-verdict",
+     "edits": [{"file": _LC, "old": _W_VERIFY,
+                "new": "            peer = self.network.verified_by_public_key_bin.get(auth.public_key_bin)\n"
+                       "            if peer:\n                peer.add_address(source_address)\n"
+                       "            else:\n                peer = Peer(auth.public_key_bin, source_address)\n" + _W_VERIFY},
+               {"file": _LC, "old": _W_PRODUCE, "new": "            return func(self, peer, *unpacked)\n"}]},
+    {"name": "lazy_wrapper: only the (pure) lookup is hoisted before the signature check, add_address stays after it",
+     "kind": "repaired", "file": _LC, "rule": "effect-after-verdict",
+     "edits": [{"file": _LC, "old": _W_VERIFY,
+                "new": "            peer = self.network.verified_by_public_key_bin.get(auth.public_key_bin)\n" + _W_VERIFY},
+               {"file": _LC, "old": _W_PRODUCE,
+                "new": "            if peer:\n                peer.add_address(source_address)\n"
+                       "            return func(self, peer or Peer(auth.public_key_bin, source_address), *unpacked)\n"}]},
+    {"name": "lazy_wrapper: sender resolved (with add_address) by a module helper that is called before the signature check",
+     "file": _LC, "rule": "effect-after-verdict",
+     "edits": [{"file": _LC, "old": "def cache_retrieval_failed(", "new": _SENDER_HELPER},
+               {"file": _LC, "old": _W_VERIFY,
+                "new": "            sender = _sender_peer(self, auth.public_key_bin, source_address, strict=True)\n" + _W_VERIFY},
+               {"file": _LC, "old": _W_PRODUCE, "new": "            return func(self, sender, *unpacked)\n"}]},
+    {"name": "lazy_wrapper: sender resolved (with add_address) by a module helper called in the handler call",
+     "kind": "repaired", "file": _LC, "rule": "effect-after-verdict",
+     "edits": [{"file": _LC, "old": "def cache_retrieval_failed(", "new": _SENDER_HELPER},
+               {"file": _LC, "old": _W_PRODUCE,
+                "new": "            return func(self, _sender_peer(self, auth.public_key_bin, source_address, strict=True), *unpacked)\n"}]},
     {"name": "wrapper: signature check removed", "file": _LC, "rule": "verify-before-call",
      "old": """            if not signature_valid:
                 msg = (f"Incoming packet {[payload_class.__name__ for payload_class in payloads]!s}"
